@@ -1,6 +1,6 @@
-(* C20 clauses as theorems over every op sequence of the Lru machine, the refutation witnesses for the
-   known findings F3 / F8, and non-vacuity examples. *)
-From AV Require Import Base Lru LruLockFacts LruDict LruProofs LruInv LruStep.
+(* C20 clauses as theorems over every op sequence of the Lru machine.  The refutation witnesses for the known
+   findings and the non-vacuity examples are in LruWitness.v. *)
+From AV Require Import Base Lru LruLockFacts LruDict LruProofs LruInv LruCount LruStep.
 From AV Require Lock LockProofs.
 From Coq Require Import Sorting.Sorted ZifyBool.
 
@@ -8,333 +8,10 @@ Lemma run_snoc cf ops o : run cf (ops ++ [o]) = fst (step cf (run cf ops) o).
 Proof. unfold run. rewrite final_app. reflexivity. Qed.
 
 (* ------------------------------------------------------------------------------------------------ *)
-(* shape of what `body` and `acquire` return                                                          *)
+(* the ghost stamp of an entry is the logical time of its last USE: installation of the placeholder, lookup hit,
+   reuse after waiting for the flight, recomputation after expiry.  `touched k ck d d1`: d1 is d after the uses
+   of one step: nothing is lost, only entries of key k may carry a new stamp (>= ck), order by stamp is kept. *)
 (* ------------------------------------------------------------------------------------------------ *)
-Lemma body_shape cf s c k l :
-  let s' := fst (body cf s c k l) in
-  let r := snd (body cf s c k l) in
-  produced s' = produced s /\
-  (r = RLockErr \/
-   (r = RKeyError /\ dfind k (dict s) = None) \/
-   (r = RBlocked /\ (exists x l', dfind k (dict s) = Some x /\ se x = EPlace l') /\
-      phase s' c = CInWrapped k l None false) \/
-   (exists x v e, r = RRet v /\ dfind k (dict s) = Some x /\ se x = EVal v e /\ phase s' c = CIdle)).
-Proof.
-  unfold body. destruct (dfind k (dict s)) as [x|] eqn:Hfind.
-  - destruct (se x) as [l'|v e] eqn:Hse.
-    + cbv zeta. split.
-      * destruct (full cf _); [unfold evict; sm; destruct (dict s); reflexivity|reflexivity].
-      * right. right. left. cbn [fst snd]. split; [reflexivity|]. split; [eauto|].
-        destruct (full cf _); [unfold evict; sm; destruct (dict s); sm; apply upd_same|sm; apply upd_same].
-    + cbv zeta. rewrite release_eq.
-      destruct (snd (Lock.step _ _)); cbn [finish fst snd]; sm; (split; [reflexivity|]); auto.
-      right. right. right. exists x, v, e. rewrite upd_same. auto.
-  - rewrite release_eq. destruct (snd (Lock.step _ _)); cbn [finish fst snd]; sm; (split; [reflexivity|]); auto.
-Qed.
-
-Lemma body_phase cf s c k l :
-  phase (fst (body cf s c k l)) c = CIdle \/ phase (fst (body cf s c k l)) c = CInWrapped k l None false.
-Proof.
-  unfold body. destruct (dfind k (dict s)) as [x|].
-  - destruct (se x) as [l'|v e]; cbv zeta.
-    + right. cbn [fst]. destruct (full cf _); [unfold evict; sm; destruct (dict s); sm; apply upd_same|sm; apply upd_same].
-    + left. rewrite release_eq. cbn [finish fst]. sm. apply upd_same.
-  - left. rewrite release_eq. cbn [finish fst]. sm. apply upd_same.
-Qed.
-
-Lemma acquire_phase cf s c k l :
-  phase (fst (acquire cf s c k l)) c = CIdle \/ phase (fst (acquire cf s c k l)) c = CInWrapped k l None false \/
-  phase (fst (acquire cf s c k l)) c = CLockWait k l (now s).
-Proof.
-  unfold acquire. rewrite lock_do_eq. destruct (snd (Lock.step _ _)); cbn [fst]; sm; rewrite ?upd_same; auto.
-  match goal with |- context [body cf ?s1 c k l] => destruct (body_phase cf s1 c k l) as [H|H] end; auto.
-Qed.
-
-Lemma acquire_shape cf s c k l :
-  let s' := fst (acquire cf s c k l) in
-  let r := snd (acquire cf s c k l) in
-  produced s' = produced s /\
-  (r = RLockErr \/ r = RBlocked \/
-   (r = RKeyError /\ dfind k (dict s) = None) \/
-   (exists x v e, r = RRet v /\ dfind k (dict s) = Some x /\ se x = EVal v e)).
-Proof.
-  unfold acquire. rewrite lock_do_eq.
-  destruct (snd (Lock.step _ _)); cbn [fst snd]; auto.
-  match goal with |- context [body cf ?s1 c k l] => pose proof (body_shape cf s1 c k l) as H end.
-  cbv zeta in H. sm. destruct H as [H1 H2]. split; [exact H1|].
-  destruct H2 as [H2|[[H2 H3]|[[H2 _]|(x & v & e & H2 & H3 & H4 & _)]]]; eauto 10.
-Qed.
-
-(* ------------------------------------------------------------------------------------------------ *)
-(* 1. right value                                                                                     *)
-(* ------------------------------------------------------------------------------------------------ *)
-Definition call_key (cf : cfg) (s : st) (o : op) : option key :=
-  match o with
-  | Call c a => Some (key_of cf a)
-  | Resume c =>
-      match phase s c with
-      | CLockWait k _ _ => Some k | CInWrapped k _ _ _ => Some k | CHitCk k _ _ => Some k
-      | CBypass k _ _ => Some k | CIdle => None
-      end
-  | _ => None
-  end.
-
-Lemma step_value cf s o s' v :
-  Inv cf s -> step cf s o = (s', RRet v) -> exists k, call_key cf s o = Some k /\ In (k, v) (produced s').
-Proof.
-  intros I Hs.
-  assert (Hfs : s' = fst (step cf s o)) by now rewrite Hs.
-  assert (Hsn : snd (step cf s o) = RRet v) by now rewrite Hs.
-  clear Hs. subst s'. destruct o as [c a|c v0|c e|c|c| |]; unfold step in *.
-  - (* Call *)
-    exists (key_of cf a). split; [reflexivity|]. revert Hsn.
-    destruct (Nat.ltb c (ncall cf)); cbn [negb]; [|discriminate].
-    destruct (is_cidle (phase s c)); cbn [negb]; [|discriminate].
-    set (k := key_of cf a). destruct (is_zero_max cf); [discriminate|].
-    destruct (dfind k (dict s)) as [x|] eqn:Hfind.
-    + destruct (dfind_some _ _ _ Hfind) as [Hkx Hin]. destruct (se x) as [l|v1 exp] eqn:Hse.
-      * destruct (acquire_shape cf s c k l) as [H1 H2]. cbv zeta in H1, H2. rewrite H1. intros E.
-        rewrite E in H2. destruct H2 as [H2|[H2|[[H2 _]|(y & v2 & e2 & H2 & H3 & H4)]]]; try discriminate.
-        injection H2 as <-. assert (y = x) by congruence. subst y. congruence.
-      * destruct (expired exp (now s)).
-        -- cbv zeta. match goal with |- context [acquire cf ?s4 c k ?l] =>
-             destruct (acquire_shape cf s4 c k l) as [H1 H2]; cbv zeta in H1, H2; rewrite H1; sm; intros E;
-             rewrite E in H2 end.
-           destruct H2 as [H2|[H2|[[H2 _]|(y & v2 & e2 & H2 & H3 & H4)]]]; try discriminate.
-           exfalso. pose proof (dget_find _ _ _ H3) as Hg. sm. rewrite dget_dmove, dget_dset_in_same, (dget_find _ _ _ Hfind) in Hg.
-           rewrite H4 in Hg. discriminate.
-        -- cbv zeta. destruct (ackpt cf); cbn [fst snd]; [discriminate|]. intros [= <-]. sm.
-           rewrite <- Hkx. apply (I_vdict _ _ I x v1 exp Hin Hse).
-    + cbv zeta. match goal with |- context [acquire cf ?s2 c k ?l] =>
-        destruct (acquire_shape cf s2 c k l) as [H1 H2]; cbv zeta in H1, H2; rewrite H1; sm; intros E;
-        rewrite E in H2 end.
-      destruct H2 as [H2|[H2|[[H2 _]|(y & v2 & e2 & H2 & H3 & H4)]]]; try discriminate.
-      exfalso. pose proof (dget_find _ _ _ H3) as Hg.
-      rewrite dget_app, (dget_none_find _ _ Hfind), Nat.eqb_refl, H4 in Hg. discriminate.
-  - exfalso. revert Hsn. destruct (phase s c) as [|k l t0|k l [w|] [|]|k v1 b|k [w|] [|]]; discriminate.
-  - exfalso. revert Hsn. destruct (phase s c) as [|k l t0|k l [w|] [|]|k v1 b|k [w|] [|]]; discriminate.
-  - exfalso. revert Hsn. destruct (phase s c) as [|k l t0|k l w b|k v1 b|k w b]; try discriminate.
-    rewrite lock_do_eq. discriminate.
-  - (* Resume *)
-    cbn [call_key]. destruct (phase s c) as [|k l t0|k l w b|k v1 b|k w b] eqn:Hp; [discriminate| | | |].
-    + exists k. split; [reflexivity|]. revert Hsn. rewrite lock_do_eq.
-      destruct (snd (Lock.step _ _)); cbn [fst snd]; try discriminate.
-      match goal with |- context [body cf ?s1 c k l] => pose proof (body_shape cf s1 c k l) as H end.
-      cbv zeta in H. destruct H as [H1 H2]. rewrite H1. sm. intros E. rewrite E in H2.
-      destruct H2 as [H2|[[H2 _]|[[H2 _]|(y & v2 & e2 & H2 & H3 & H4 & _)]]]; try discriminate.
-      injection H2 as <-. destruct (dfind_some _ _ _ H3) as [Hk Hin]. rewrite <- Hk.
-      apply (I_vdict _ _ I y v e2 Hin H4).
-    + exists k. split; [reflexivity|]. revert Hsn. destruct b.
-      * rewrite release_eq. destruct (snd (Lock.step _ _)); discriminate.
-      * destruct w as [[v2|e]|]; [| |discriminate].
-        -- cbv zeta. rewrite release_eq. destruct (snd (Lock.step _ _)); cbn [finish fst snd]; try discriminate.
-           intros [= <-]. sm. now left.
-        -- rewrite release_eq. destruct (snd (Lock.step _ _)); discriminate.
-    + exists k. split; [reflexivity|]. revert Hsn. cbn [fst snd]. destruct b; [discriminate|].
-      intros [= <-]. sm. apply (I_vhit _ _ I _ _ _ _ Hp).
-    + exists k. split; [reflexivity|]. revert Hsn. destruct b; [discriminate|].
-      destruct w as [[v2|e]|]; try discriminate. cbn [fst snd]. intros [= <-]. sm. now left.
-  - discriminate Hsn.
-  - exfalso. revert Hsn. destruct (all_idle cf s); cbn [negb]; [|discriminate].
-    destruct (is_zero_max cf); discriminate.
-Qed.
-
-(* a call returns only a value that some execution of the wrapped function returned for the same key *)
-Theorem lru_value_faithful cf ops o s' v :
-  step cf (run cf ops) o = (s', RRet v) ->
-  exists k, call_key cf (run cf ops) o = Some k /\ In (k, v) (produced s').
-Proof. apply step_value, reachable_inv. Qed.
-
-(* `produced` grows only when the wrapped function of a caller returns: (k, v) is logged exactly when the
-   execution for key k started by that caller is resumed with the oracle value v *)
-Theorem lru_produced_only_by_wrapped cf s o :
-  produced (fst (step cf s o)) = produced s \/
-  exists c k v, o = Resume c /\ produced (fst (step cf s o)) = (k, v) :: produced s /\
-    ((exists l, phase s c = CInWrapped k l (Some (WRet v)) false) \/ phase s c = CBypass k (Some (WRet v)) false).
-Proof.
-  destruct o as [c a|c v0|c e|c|c| |]; unfold step.
-  - left. destruct (Nat.ltb c (ncall cf)); cbn [negb]; [|reflexivity].
-    destruct (is_cidle (phase s c)); cbn [negb]; [|reflexivity].
-    destruct (is_zero_max cf); [reflexivity|].
-    destruct (dfind _ (dict s)) as [x|].
-    + destruct (se x) as [l|v1 exp].
-      * apply acquire_shape.
-      * destruct (expired exp (now s)); cbv zeta.
-        -- match goal with |- context [acquire cf ?s4 c ?k ?l] =>
-             destruct (acquire_shape cf s4 c k l) as [H1 _]; cbv zeta in H1; rewrite H1 end. reflexivity.
-        -- destruct (ackpt cf); reflexivity.
-    + cbv zeta. match goal with |- context [acquire cf ?s4 c ?k ?l] =>
-        destruct (acquire_shape cf s4 c k l) as [H1 _]; cbv zeta in H1; rewrite H1 end. reflexivity.
-  - left. destruct (phase s c) as [|k l t0|k l [w|] [|]|k v1 b|k [w|] [|]]; reflexivity.
-  - left. destruct (phase s c) as [|k l t0|k l [w|] [|]|k v1 b|k [w|] [|]]; reflexivity.
-  - left. destruct (phase s c) as [|k l t0|k l w b|k v1 b|k w b]; try reflexivity.
-    rewrite lock_do_eq. reflexivity.
-  - destruct (phase s c) as [|k l t0|k l w b|k v1 b|k w b] eqn:Hp; [left; reflexivity| | | |].
-    + left. rewrite lock_do_eq. destruct (snd (Lock.step _ _)); cbn [fst snd]; try reflexivity.
-      match goal with |- context [body cf ?s1 c k l] => destruct (body_shape cf s1 c k l) as [H1 _] end.
-      cbv zeta in H1. rewrite H1. reflexivity.
-    + destruct b.
-      * left. rewrite release_eq. reflexivity.
-      * destruct w as [[v2|e]|]; [| |left; reflexivity].
-        -- right. exists c, k, v2. split; [reflexivity|]. split; [|left; eauto].
-           cbv zeta. rewrite release_eq. reflexivity.
-        -- left. rewrite release_eq. reflexivity.
-    + left. reflexivity.
-    + destruct b; [left; reflexivity|]. destruct w as [[v2|e]|]; [| |left; reflexivity].
-      * right. exists c, k, v2. split; [reflexivity|]. split; [reflexivity|right; exact Hp].
-      * left. reflexivity.
-  - left. reflexivity.
-  - left. destruct (all_idle cf s); cbn [negb]; [|reflexivity]. destruct (is_zero_max cf); reflexivity.
-Qed.
-
-(* a call raises (other than CancelledError) only what its own execution of the wrapped function raised *)
-Theorem lru_raises_own cf s o e :
-  snd (step cf s o) = RExc e ->
-  exists c k, o = Resume c /\
-    ((exists l, phase s c = CInWrapped k l (Some (WExc e)) false) \/ phase s c = CBypass k (Some (WExc e)) false).
-Proof.
-  destruct o as [c a|c v0|c e0|c|c| |]; unfold step.
-  - destruct (Nat.ltb c (ncall cf)); cbn [negb]; [|discriminate].
-    destruct (is_cidle (phase s c)); cbn [negb]; [|discriminate].
-    destruct (is_zero_max cf); [discriminate|].
-    destruct (dfind _ (dict s)) as [x|].
-    + destruct (se x) as [l|v1 exp].
-      * intros E. destruct (acquire_shape cf s c (key_of cf a) l) as [_ H]. cbv zeta in H. rewrite E in H.
-        destruct H as [H|[H|[[H _]|(y & v2 & e2 & H & _)]]]; discriminate.
-      * destruct (expired exp (now s)); cbv zeta.
-        -- match goal with |- context [acquire cf ?s4 c ?k ?l] =>
-             destruct (acquire_shape cf s4 c k l) as [_ H]; cbv zeta in H; intros E; rewrite E in H end.
-           destruct H as [H|[H|[[H _]|(y & v2 & e2 & H & _)]]]; discriminate.
-        -- destruct (ackpt cf); discriminate.
-    + cbv zeta. match goal with |- context [acquire cf ?s4 c ?k ?l] =>
-        destruct (acquire_shape cf s4 c k l) as [_ H]; cbv zeta in H; intros E; rewrite E in H end.
-      destruct H as [H|[H|[[H _]|(y & v2 & e2 & H & _)]]]; discriminate.
-  - destruct (phase s c) as [|k l t0|k l [w|] [|]|k v1 b|k [w|] [|]]; discriminate.
-  - destruct (phase s c) as [|k l t0|k l [w|] [|]|k v1 b|k [w|] [|]]; discriminate.
-  - destruct (phase s c) as [|k l t0|k l w b|k v1 b|k w b]; try discriminate. rewrite lock_do_eq. discriminate.
-  - destruct (phase s c) as [|k l t0|k l w b|k v1 b|k w b] eqn:Hp; [discriminate| | | |].
-    + rewrite lock_do_eq. destruct (snd (Lock.step _ _)); cbn [fst snd]; try discriminate.
-      match goal with |- context [body cf ?s1 c k l] => destruct (body_shape cf s1 c k l) as [_ H] end.
-      cbv zeta in H. intros E. rewrite E in H.
-      destruct H as [H|[[H _]|[[H _]|(y & v2 & e2 & H & _)]]]; discriminate.
-    + destruct b.
-      * rewrite release_eq. destruct (snd (Lock.step _ _)); discriminate.
-      * destruct w as [[v2|e2]|]; [| |discriminate].
-        -- cbv zeta. rewrite release_eq. destruct (snd (Lock.step _ _)); discriminate.
-        -- rewrite release_eq. destruct (snd (Lock.step _ _)); cbn [finish fst snd]; try discriminate.
-           intros [= <-]. exists c, k. split; [reflexivity|]. left. eauto.
-    + destruct b; discriminate.
-    + destruct b; [discriminate|]. destruct w as [[v2|e2]|]; try discriminate.
-      cbn [fst snd]. intros [= <-]. exists c, k. split; [reflexivity|]. right. exact Hp.
-  - discriminate.
-  - destruct (all_idle cf s); cbn [negb]; [|discriminate]. destruct (is_zero_max cf); discriminate.
-Qed.
-
-(* ------------------------------------------------------------------------------------------------ *)
-(* 2. single flight                                                                                   *)
-(* ------------------------------------------------------------------------------------------------ *)
-Theorem lru_single_flight cf ops c1 c2 k l1 l2 p1 b1 p2 b2 :
-  no_inflight_eviction cf ops -> no_waited_eviction cf ops ->
-  phase (run cf ops) c1 = CInWrapped k l1 p1 b1 ->
-  phase (run cf ops) c2 = CInWrapped k l2 p2 b2 ->
-  c1 = c2.
-Proof.
-  intros Hf Hw H1 H2. pose proof (reachable_inv cf ops) as I.
-  pose proof (I_A _ _ I Hf Hw _ _ _ _ _ H1) as A1. pose proof (I_A _ _ I Hf Hw _ _ _ _ _ H2) as A2.
-  assert (l1 = l2) by congruence. subst l2.
-  eapply held_unique; [apply (L_inv _ _ _ _ _ (I_lp _ _ I) l1)| |];
-    eapply (L_run _ _ _ _ _ (I_lp _ _ I)); eauto.
-Qed.
-
-(* later callers reuse the first result: a caller that waited for the entry's lock and finds the value stored
-   returns that value (or is cancelled) and never starts an execution of its own *)
-Theorem lru_reuse_first_result cf ops c k l t0 v e :
-  phase (run cf ops) c = CLockWait k l t0 ->
-  dget k (dict (run cf ops)) = Some (EVal v e) ->
-  let r := snd (step cf (run cf ops) (Resume c)) in
-  r = RRet v \/ r = RCancelled \/ r = RRejected.
-Proof.
-  intros Hp Hd. pose proof (reachable_inv cf ops) as I. set (s := run cf ops) in *.
-  destruct (step_ok cf s (Resume c) I) as [_ [Hgood _]].
-  cbv zeta. revert Hgood. unfold step. rewrite Hp, lock_do_eq.
-  destruct (snd (Lock.step _ _)); cbn [fst snd]; auto; try congruence.
-  match goal with |- context [body cf ?s1 c k l] => destruct (body_shape cf s1 c k l) as [_ H] end.
-  cbv zeta in H. sm. intros Hg.
-  destruct (dget_some _ _ _ Hd) as (x & Hx & Hse & _).
-  destruct H as [H|[[_ H]|[[_ [(y & l' & H & H') _]]|(y & v2 & e2 & H & H1 & H2 & _)]]]; try congruence.
-  left. rewrite H. congruence.
-Qed.
-
-(* ------------------------------------------------------------------------------------------------ *)
-(* 3. calls with different arguments do not block one another                                         *)
-(* ------------------------------------------------------------------------------------------------ *)
-Theorem lru_distinct_keys_independent cf ops c k l t0 :
-  phase (run cf ops) c = CLockWait k l t0 ->
-  lkey (run cf ops) l = k /\
-  (forall c', Lock.phase_of (locks (run cf ops) l) c' <> Lock.Idle \/ In c' (Lock.held (locks (run cf ops) l)) ->
-     (exists t, phase (run cf ops) c' = CLockWait k l t) \/
-     (exists p b, phase (run cf ops) c' = CInWrapped k l p b)) /\
-  (forall c', Lock.owner (locks (run cf ops) l) = Some c' ->
-     (exists t, phase (run cf ops) c' = CLockWait k l t) \/
-     (exists p b, phase (run cf ops) c' = CInWrapped k l p b)).
-Proof.
-  intros Hp. pose proof (reachable_inv cf ops) as I. set (s := run cf ops) in *.
-  pose proof (I_lp _ _ I) as LPs.
-  assert (Hk : lkey s l = k) by (apply (L_ref _ _ _ _ _ LPs c); now rewrite Hp).
-  assert (Heng : forall c', engaged (locks s l) c' ->
-            (exists t, phase s c' = CLockWait k l t) \/ (exists p b, phase s c' = CInWrapped k l p b)).
-  { intros c' He. destruct (L_eng _ _ _ _ _ LPs l c' He) as [k' Hk'].
-    destruct (L_ref _ _ _ _ _ LPs c' k' l Hk') as [_ E]. assert (Ek : k' = k) by congruence.
-    destruct (phase s c') as [|k1 l1 t1|k1 l1 p1 b1|k1 v1 b1|k1 p1 b1]; cbn in Hk'; try discriminate;
-      injection Hk' as E1 E2.
-    - left. exists t1. congruence.
-    - right. exists p1, b1. congruence. }
-  refine (conj Hk (conj Heng _)).
-  intros c' Ho. apply Heng. apply (LockProofs.I_owner _ (L_inv _ _ _ _ _ LPs l)) in Ho.
-  destruct Ho as [H|[H|(f & H & _)]]; [right; exact H|left; congruence|left; congruence].
-Qed.
-
-(* ------------------------------------------------------------------------------------------------ *)
-(* 4. no internal error                                                                               *)
-(* ------------------------------------------------------------------------------------------------ *)
-Theorem lru_no_internal_error cf ops o :
-  no_inflight_eviction cf (ops ++ [o]) -> no_waited_eviction cf (ops ++ [o]) ->
-  snd (step cf (run cf ops) o) <> RKeyError /\ snd (step cf (run cf ops) o) <> RLockErr.
-Proof.
-  unfold no_inflight_eviction, no_waited_eviction, evicts_inflight, evicts_waited. rewrite run_snoc.
-  intros Hf Hw. destruct (step_ok cf (run cf ops) o (reachable_inv cf ops)) as [_ [H1 H2]]. auto.
-Qed.
-
-(* the embedded locks never report an error, whatever is evicted *)
-Theorem lru_no_lock_error cf ops o : snd (step cf (run cf ops) o) <> RLockErr.
-Proof. apply (step_ok cf (run cf ops) o (reachable_inv cf ops)). Qed.
-
-(* ------------------------------------------------------------------------------------------------ *)
-(* 5. bounded retention, least recently used first                                                    *)
-(* ------------------------------------------------------------------------------------------------ *)
-Theorem lru_bounded cf ops m :
-  no_inflight_eviction cf ops -> maxsize cf = Some m ->
-  length (filter (fun x => negb (is_place (se x))) (dict (run cf ops))) +
-  length (filter (fun c => match phase (run cf ops) c with CInWrapped _ _ _ _ => true | _ => false end)
-                 (seq 0 (ncall cf))) <= m.
-Proof.
-  intros Hf Hm. destruct (I_bound _ _ (reachable_inv cf ops) Hf) as [H1 H2]. specialize (H2 m Hm).
-  change (nval (dict (run cf ops)) + nrun cf (phase (run cf ops)) <= m). lia.
-Qed.
-
-Theorem lru_order cf ops :
-  NoDup (map sk (dict (run cf ops))) /\
-  StronglySorted (fun a b => ss a < ss b) (dict (run cf ops)) /\
-  (forall x, In x (dict (run cf ops)) -> ss x < clk (run cf ops)).
-Proof.
-  pose proof (reachable_inv cf ops) as I.
-  exact (conj (I_nodup _ _ I) (conj (I_sorted _ _ I) (I_stamp _ _ I))).
-Qed.
-
-(* ---- eviction order.  The ghost stamp of an entry is the logical time of its last USE: installation of the
-   placeholder, lookup hit, reuse after waiting for the flight, recomputation after expiry.  `touched k ck d d1`:
-   d1 is d after the uses of one step: nothing is lost, only entries of key k may carry a new stamp (>= ck), order
-   by stamp is kept. ---- *)
 Definition touched (k : key) (ck : nat) (d d1 : list slot) : Prop :=
   StronglySorted stamp_lt d1 /\
   (forall x, In x d -> exists y, In y d1 /\ sk y = sk x /\ ss x <= ss y) /\
@@ -378,12 +55,18 @@ Proof.
   - destruct (IH H) as (y & Hy & E1 & E2). exists y. split; [right; exact Hy|auto].
 Qed.
 
-Lemma touched_dset_in k ck e d : StronglySorted stamp_lt d -> touched k ck d (dset_in k e d).
+Lemma touched_dset_in k k0 ck e d : StronglySorted stamp_lt d -> touched k0 ck d (dset_in k e d).
 Proof.
   intros Hs. refine (conj (sorted_dset_in k e d Hs) (conj _ _)).
   - intros x Hx. destruct (in_dset_in_conv x k e d Hx) as (y & Hy & E1 & E2). exists y. split; [exact Hy|]. split; [exact E1|lia].
   - intros y Hy. left. apply in_dset_in in Hy. destruct Hy as [Hy|(z & Hz & Hk & ->)]; [exists y; auto|].
     exists z. cbn. auto.
+Qed.
+
+Lemma touched_dmark k k0 ck d : StronglySorted stamp_lt d -> touched k0 ck d (dmark k d).
+Proof.
+  intros Hs. unfold dmark. destruct (dfind k d) as [x|]; [|now apply touched_refl].
+  destruct (se x); [now apply touched_dset_in|now apply touched_refl].
 Qed.
 
 Lemma touched_dmove k ck st d :
@@ -405,160 +88,137 @@ Proof.
   intros Hs Hb Hc. unfold dstore. destruct (dfind k d); [now apply touched_dset_in|now apply touched_app].
 Qed.
 
-(* what is missing after the optional eviction of the head was used before everything that remains *)
-Lemma touched_evict k ck d d1 d' :
-  touched k ck d d1 -> d' = d1 \/ d' = tl d1 ->
+Lemma in_dmark_stamp x k d : In x (dmark k d) -> exists y, In y d /\ sk y = sk x /\ ss y = ss x.
+Proof.
+  unfold dmark. destruct (dfind k d) as [z|]; [|intros H; exists x; auto].
+  destruct (se z); [|intros H; exists x; auto].
+  intros H. apply in_dset_in in H. destruct H as [H|(y & Hy & Hk & ->)]; [exists x; auto|].
+  exists y. cbn. auto.
+Qed.
+
+Lemma in_keys_ex key d : In key (keys d) -> exists y, In y d /\ sk y = key.
+Proof. unfold keys. intros H. apply in_map_iff in H. destruct H as (y & E & Hy). eauto. Qed.
+
+(* what is missing after the optional eviction of the head (and the ghost mark) was used before everything that
+   remains *)
+Lemma touched_evict k ck d d1 d' k0 :
+  touched k ck d d1 -> d' = d1 \/ d' = dmark k0 d1 \/ d' = dmark k0 (tl d1) ->
   forall x, In x d -> (forall y, In y d' -> sk y <> sk x) -> forall y', In y' d' -> ss x < ss y'.
 Proof.
   intros (S1 & A1 & _) Hd x Hx Hgone y' Hy'. destruct (A1 x Hx) as (y & Hy & E & L).
-  destruct Hd as [->| ->]; [exfalso; eapply Hgone; eauto|].
-  destruct d1 as [|h t]; [contradiction|]. cbn in *.
-  destruct Hy as [<-|Hy]; [|exfalso; eapply Hgone; eauto].
-  inversion S1 as [|a b Hs Hf]; subst. rewrite Forall_forall in Hf. specialize (Hf y' Hy'). unfold stamp_lt in Hf. lia.
+  assert (Hpres : forall t, In y t -> In (sk x) (keys (dmark k0 t))).
+  { intros t Ht. rewrite keys_dmark, <- E. apply in_keys, Ht. }
+  destruct Hd as [->|[->| ->]].
+  - exfalso. eapply Hgone; eauto.
+  - exfalso. destruct (in_keys_ex _ _ (Hpres d1 Hy)) as (z & Hz & Ez). eapply Hgone; eauto.
+  - destruct d1 as [|h t]; [contradiction|]. cbn [tl] in *.
+    destruct Hy as [<-|Hy]; [|exfalso; destruct (in_keys_ex _ _ (Hpres t Hy)) as (z & Hz & Ez); eapply Hgone; eauto].
+    inversion S1 as [|a b Hs Hf]; subst. rewrite Forall_forall in Hf.
+    destruct (in_dmark_stamp y' k0 t Hy') as (y2 & Hy2 & _ & Es). specialize (Hf y2 Hy2). unfold stamp_lt in Hf. lia.
 Qed.
 
 Definition touch_or_evict (k : key) (ck : nat) (d d' : list slot) : Prop :=
-  exists d1, touched k ck d d1 /\ (d' = d1 \/ d' = tl d1).
+  exists d1 k0, touched k ck d d1 /\ (d' = d1 \/ d' = dmark k0 d1 \/ d' = dmark k0 (tl d1)).
 
-Lemma body_dict cf s c k l :
-  dict (fst (body cf s c k l)) = dict s \/ dict (fst (body cf s c k l)) = tl (dict s) \/
-  dict (fst (body cf s c k l)) = dmove k (clk s) (dict s).
+Lemma keys_dmove_in k st d key : In key (keys d) -> In key (keys (dmove k st d)).
 Proof.
-  unfold body. destruct (dfind k (dict s)) as [x|].
-  - destruct (se x) as [l'|v e]; cbv zeta.
-    + destruct (full cf _); sm; [|now left]. unfold evict. sm. destruct (dict s) as [|x0 r] eqn:E; sm; auto.
-    + right. right. rewrite release_eq. cbn [finish fst]. sm. reflexivity.
-  - left. rewrite release_eq. cbn [finish fst]. sm. reflexivity.
+  unfold dmove. destruct (dfind k d) as [x|] eqn:E; [|auto]. intros H.
+  unfold keys. rewrite map_app. apply in_or_app. cbn.
+  destruct (Nat.eq_dec key k) as [->|N]; [right; now left|left].
+  fold (keys (dremove k d)). rewrite keys_dremove. apply filter_In. split; [exact H|].
+  destruct (Nat.eqb_spec key k); [contradiction|reflexivity].
 Qed.
 
-Lemma body_ret_dict cf s c k l v :
-  snd (body cf s c k l) = RRet v -> dict (fst (body cf s c k l)) = dmove k (clk s) (dict s).
+(* ------------------------------------------------------------------------------------------------ *)
+(* what `body`, `acquire`, `acquire_x` and `enter` do                                                 *)
+(* ------------------------------------------------------------------------------------------------ *)
+Lemma body_facts cf s c k l g :
+  let s' := fst (body cf s c k l g) in
+  let r := snd (body cf s c k l g) in
+  produced s' = produced s /\ cur s' = cur s /\ (forall g0, g0 <> g -> dicts s' g0 = dicts s g0) /\
+  (dicts s' g = dicts s g \/ dicts s' g = dmark k (dicts s g) \/ dicts s' g = dmark k (tl (dicts s g)) \/
+   dicts s' g = dmove k (clk s) (dicts s g)) /\
+  (r = RLockErr \/
+   (r = RKeyError /\ dfind k (dicts s g) = None) \/
+   (r = RBlocked /\ (exists x l' b', dfind k (dicts s g) = Some x /\ se x = EPlace l' b') /\
+      phase s' c = CInWrapped k l None false g) \/
+   (exists x v e, r = RRet v /\ dfind k (dicts s g) = Some x /\ se x = EVal v e /\ phase s' c = CIdle /\
+                  dicts s' g = dmove k (clk s) (dicts s g))) /\
+  (phase s' c = CIdle \/ phase s' c = CInWrapped k l None false g) /\
+  ((exists key, In key (keys (dicts s g)) /\ ~ In key (keys (dicts s' g))) ->
+     full cf s = true /\ currsize s' = currsize s).
 Proof.
-  unfold body. destruct (dfind k (dict s)) as [x|].
-  - destruct (se x) as [l'|v0 e]; cbv zeta; [discriminate|].
-    intros _. rewrite release_eq. cbn [finish fst]. sm. reflexivity.
-  - rewrite release_eq. destruct (snd (Lock.step _ _)); discriminate.
+  unfold body. destruct (dfind k (dicts s g)) as [x|] eqn:Hfind.
+  - destruct (se x) as [l' b'|v e] eqn:Hse; cbv zeta.
+    + assert (Efull : full cf (set_counts s (hits s) (S (misses s)) (currsize s)) = full cf s) by reflexivity.
+      rewrite Efull. destruct (full cf s) eqn:Hfull; cbn [fst snd].
+      * unfold evict. sm. destruct (dicts s g) as [|x0 r] eqn:Hdict; [discriminate|]. sm.
+        rewrite !upd_same. refine (conj eq_refl (conj eq_refl (conj _ (conj _ (conj _ (conj _ _)))))).
+        -- intros g0 N. now rewrite !upd_other.
+        -- right. right. left. reflexivity.
+        -- right. right. left. split; [reflexivity|]. split; [eauto|reflexivity].
+        -- right. reflexivity.
+        -- intros _. auto.
+      * sm. rewrite !upd_same. refine (conj eq_refl (conj eq_refl (conj _ (conj _ (conj _ (conj _ _)))))).
+        -- intros g0 N. now rewrite upd_other.
+        -- right. left. reflexivity.
+        -- right. right. left. split; [reflexivity|]. split; [eauto|reflexivity].
+        -- right. reflexivity.
+        -- intros (key & H1 & H2). exfalso. apply H2. now rewrite keys_dmark.
+    + rewrite release_eq.
+      assert (Hd : forall ok r0, dicts (fst (finish (set_lock (bump_clk (set_dict (set_counts s (S (hits s)) (misses s) (currsize s)) g
+                 (dmove k (clk s) (dicts s g)))) l (fst (Lock.step (locks s l) (Lock.Release c)))) c ok r0)) g
+                 = dmove k (clk s) (dicts s g)) by (intros; cbn [finish fst]; sm; apply upd_same).
+      destruct (snd (Lock.step _ _)); cbn [finish fst snd]; sm; rewrite ?upd_same;
+        (refine (conj eq_refl (conj eq_refl (conj _ (conj _ (conj _ (conj _ _)))))));
+        try (intros g0 N; now rewrite upd_other); try (right; right; right; reflexivity);
+        try (left; reflexivity);
+        try (intros (key & H1 & H2); exfalso; apply H2; now apply keys_dmove_in); auto.
+      right. right. right. exists x, v, e. auto.
+  - rewrite release_eq. destruct (snd (Lock.step _ _)); cbn [finish fst snd]; sm; rewrite ?upd_same;
+      (refine (conj eq_refl (conj eq_refl (conj _ (conj _ (conj _ (conj _ _)))))));
+      try (intros g0 N; reflexivity); try (left; reflexivity);
+      try (intros (key & H1 & H2); contradiction); auto.
 Qed.
 
-Lemma acquire_dict cf s c k l :
-  dict (fst (acquire cf s c k l)) = dict s \/ dict (fst (acquire cf s c k l)) = tl (dict s) \/
-  dict (fst (acquire cf s c k l)) = dmove k (clk s) (dict s).
+Lemma acquire_facts cf s c k l :
+  let s' := fst (acquire cf s c k l) in
+  let r := snd (acquire cf s c k l) in
+  let g := cur s in
+  produced s' = produced s /\ cur s' = cur s /\ (forall g0, g0 <> g -> dicts s' g0 = dicts s g0) /\
+  (dicts s' g = dicts s g \/ dicts s' g = dmark k (dicts s g) \/ dicts s' g = dmark k (tl (dicts s g)) \/
+   dicts s' g = dmove k (clk s) (dicts s g)) /\
+  (r = RLockErr \/ r = RBlocked \/
+   (r = RKeyError /\ dfind k (dicts s g) = None) \/
+   (exists x v e, r = RRet v /\ dfind k (dicts s g) = Some x /\ se x = EVal v e)) /\
+  (phase s' c = CIdle \/ phase s' c = CInWrapped k l None false g \/ phase s' c = CLockWait k l (now s) g) /\
+  ((exists key, In key (keys (dicts s g)) /\ ~ In key (keys (dicts s' g))) ->
+     full cf s = true /\ currsize s' = currsize s).
 Proof.
-  unfold acquire. rewrite lock_do_eq. destruct (snd (Lock.step _ _)); cbn [fst]; sm; auto.
-  match goal with |- context [body cf ?s1 c k l] => exact (body_dict cf s1 c k l) end.
+  unfold acquire. cbv zeta. rewrite lock_do_eq.
+  destruct (snd (Lock.step _ _)); cbn [fst snd]; sm; rewrite ?upd_same;
+    try (refine (conj eq_refl (conj eq_refl (conj _ (conj _ (conj _ (conj _ _))))));
+         [intros; reflexivity|left; reflexivity|auto|auto|intros (key & H1 & H2); contradiction]).
+  match goal with |- context [body cf ?s1 c k l ?g] => pose proof (body_facts cf s1 c k l g) as H end.
+  cbv zeta in H. sm. destruct H as (H1 & H2 & H3 & H4 & H5 & H6 & H7).
+  refine (conj H1 (conj H2 (conj H3 (conj H4 (conj _ (conj _ H7)))))).
+  - destruct H5 as [H5|[[H5 H5']|[[H5 _]|(x & v & e & H5 & H5' & H5'' & _)]]]; eauto 10.
+  - destruct H6; auto.
 Qed.
 
-Lemma after_uses cf s2 k ck d d' :
-  Inv cf s2 -> touched k ck d (dict s2) -> ck <= clk s2 ->
-  d' = dict s2 \/ d' = tl (dict s2) \/ d' = dmove k (clk s2) (dict s2) ->
-  touch_or_evict k ck d d'.
+Lemma acquire_x_facts cf s c k l :
+  let s' := fst (acquire_x cf s c k l) in
+  let r := snd (acquire_x cf s c k l) in
+  produced s' = produced s /\ cur s' = cur s /\ dicts s' = dicts s /\ currsize s' = currsize s /\
+  (r = RLockErr \/ r = RBlocked) /\
+  (phase s' c = CIdle \/ phase s' c = CEntryCk k \/ phase s' c = CLockWait k l (now s) (cur s)).
 Proof.
-  intros I2 HT Hc [->|[->| ->]].
-  - exists (dict s2). auto.
-  - exists (dict s2). auto.
-  - exists (dmove k (clk s2) (dict s2)). split; [|now left].
-    eapply touched_trans; [exact HT|]. apply touched_dmove; [apply (I_sorted _ _ I2)|apply (I_stamp _ _ I2)|exact Hc].
+  unfold acquire_x. destruct (Lock.owner (locks s l)); destruct (Lock.waiters (locks s l));
+    try (cbn [fst snd]; sm; rewrite upd_same; auto 10).
+  all: rewrite lock_do_eq; destruct (snd (Lock.step _ _)); rewrite ?lock_do_eq; cbn [fst snd]; sm;
+    rewrite ?upd_same; auto 10.
 Qed.
 
-Lemma step_uses cf s o :
-  Inv cf s -> o <> Clear ->
-  exists k, (call_key cf s o = Some k \/ dict (fst (step cf s o)) = dict s) /\
-            touch_or_evict k (clk s) (dict s) (dict (fst (step cf s o))).
-Proof.
-  intros I Hne.
-  assert (Hsame : forall d', d' = dict s -> exists k, (call_key cf s o = Some k \/ d' = dict s) /\
-                                                  touch_or_evict k (clk s) (dict s) d').
-  { intros d' ->. exists 0. split; [now right|]. exists (dict s). split; [apply touched_refl, (I_sorted _ _ I)|now left]. }
-  destruct o as [c a|c v0|c e|c|c| |]; try contradiction.
-  - (* Call *)
-    unfold step.
-    destruct (Nat.ltb c (ncall cf)); cbn [negb fst]; [|now apply Hsame].
-    destruct (is_cidle (phase s c)); cbn [negb fst]; [|now apply Hsame].
-    destruct (is_zero_max cf); [now apply Hsame|].
-    exists (key_of cf a). split; [left; reflexivity|]. set (k := key_of cf a).
-    destruct (dfind k (dict s)) as [x|] eqn:Hfind.
-    + destruct (se x) as [l|v1 exp] eqn:Hse.
-      * apply (after_uses cf s k (clk s) (dict s) _ I); [apply touched_refl, (I_sorted _ _ I)|lia|apply acquire_dict].
-      * destruct (expired exp (now s)); cbv zeta.
-        -- set (s4 := bump_clk _).
-           assert (I4 : Inv cf s4)
-             by exact (inv_touch cf _ k (hits s) (misses s) (inv_expire cf s k x v1 exp I Hfind Hse)).
-           apply (after_uses cf s4 k (clk s) (dict s) _ I4); [| unfold s4; sm; lia | apply acquire_dict].
-           unfold s4. sm. eapply touched_trans; [apply touched_dset_in, (I_sorted _ _ I)|].
-           apply touched_dmove; [apply sorted_dset_in, (I_sorted _ _ I)| |lia].
-           intros y Hy. apply in_dset_in in Hy. destruct Hy as [Hy|(z & Hz & _ & ->)]; [apply (I_stamp _ _ I), Hy|].
-           cbn. apply (I_stamp _ _ I), Hz.
-        -- exists (dmove k (clk s) (dict s)). split.
-           ++ apply touched_dmove; [apply (I_sorted _ _ I)|apply (I_stamp _ _ I)|lia].
-           ++ left. destruct (ackpt cf); reflexivity.
-    + cbv zeta. set (s2 := bump_clk _).
-      assert (I2 : Inv cf s2) by exact (inv_install cf s k I Hfind).
-      apply (after_uses cf s2 k (clk s) (dict s) _ I2); [| unfold s2; sm; lia | apply acquire_dict].
-      unfold s2. sm. apply touched_app; [apply (I_sorted _ _ I)|apply (I_stamp _ _ I)|lia].
-  - apply Hsame. unfold step. destruct (phase s c) as [|k l t0|k l [w|] [|]|k v1 b|k [w|] [|]]; reflexivity.
-  - apply Hsame. unfold step. destruct (phase s c) as [|k l t0|k l [w|] [|]|k v1 b|k [w|] [|]]; reflexivity.
-  - apply Hsame. unfold step. destruct (phase s c) as [|k l t0|k l w b|k v1 b|k w b]; try reflexivity.
-    rewrite lock_do_eq. reflexivity.
-  - (* Resume *)
-    unfold step.
-    destruct (phase s c) as [|k l t0|k l w b|k v1 b|k w b] eqn:Hp; try (now apply Hsame).
-    + rewrite lock_do_eq.
-      destruct (snd (Lock.step (locks s l) (Lock.Resume c))) eqn:Er; cbn [fst]; sm; try (now apply Hsame).
-      exists k. split; [left; cbn [call_key]; now rewrite Hp|].
-      set (s1 := set_lock s l _).
-      assert (I1 : Inv cf s1).
-      { assert (E : s1 = fst (step cf s (Resume c)) \/ True) by now right.
-        destruct (Lock.phase_of (locks s l) c) eqn:Hlp.
-        - exfalso. assert (E' : Lock.step (locks s l) (Lock.Resume c) = (locks s l, Lock.RRejected))
-            by (cbn [Lock.step]; now rewrite Hlp). rewrite E' in Er. discriminate.
-        - destruct (resume_cases (locks s l) c (L_inv _ _ _ _ _ (I_lp _ _ I) l) ltac:(congruence))
-            as [[E1 Hh]|[[E1 _]|[E1 _]]]; rewrite Er in E1; try discriminate.
-          apply (inv_lock_only cf s c k l t0 (Lock.Resume c) I Hp eq_refl). right. exact Hh.
-        - destruct (resume_cases (locks s l) c (L_inv _ _ _ _ _ (I_lp _ _ I) l) ltac:(congruence))
-            as [[E1 Hh]|[[E1 _]|[E1 _]]]; rewrite Er in E1; try discriminate.
-          apply (inv_lock_only cf s c k l t0 (Lock.Resume c) I Hp eq_refl). right. exact Hh. }
-      apply (after_uses cf s1 k (clk s) (dict s) _ I1); [apply touched_refl, (I_sorted _ _ I)|unfold s1; sm; lia|].
-      apply (body_dict cf s1 c k l).
-    + destruct b.
-      * apply Hsame. rewrite release_eq. reflexivity.
-      * destruct w as [[v2|e]|]; [| |now apply Hsame].
-        -- exists k. split; [left; cbn [call_key]; now rewrite Hp|]. cbv zeta. rewrite release_eq. cbn [finish fst]. sm.
-           exists (dstore k (EVal v2 (new_exp cf (now s))) (clk s) (dict s)). split; [|now left].
-           apply touched_dstore; [apply (I_sorted _ _ I)|apply (I_stamp _ _ I)|lia].
-        -- apply Hsame. rewrite release_eq. reflexivity.
-    + apply Hsame. destruct b; [reflexivity|]. destruct w as [[v2|e]|]; reflexivity.
-  - apply Hsame. reflexivity.
-Qed.
-
-(* LRU eviction at full strength (ttl included): an entry whose key disappears from the dict in a step other than
-   cache_clear() was last used (installed, hit, reused after a wait, or recomputed after expiry) strictly before
-   every entry that remains *)
-Theorem lru_evicts_oldest_use cf ops o x :
-  o <> Clear -> In x (dict (run cf ops)) ->
-  (forall y, In y (dict (fst (step cf (run cf ops) o))) -> sk y <> sk x) ->
-  forall y', In y' (dict (fst (step cf (run cf ops) o))) -> ss x < ss y'.
-Proof.
-  intros Hne Hx Hgone. destruct (step_uses cf (run cf ops) o (reachable_inv cf ops) Hne) as (k & _ & d1 & HT & Hd).
-  eapply touched_evict; eauto.
-Qed.
-
-(* stamps change only by a use: after a step every entry either carries the stamp it had, or belongs to the key
-   of the call that acted in this step and carries a stamp newer than everything before *)
-Theorem lru_stamp_is_last_use cf ops o y' :
-  o <> Clear -> In y' (dict (fst (step cf (run cf ops) o))) ->
-  (exists y, In y (dict (run cf ops)) /\ sk y = sk y' /\ ss y = ss y') \/
-  (call_key cf (run cf ops) o = Some (sk y') /\ clk (run cf ops) <= ss y').
-Proof.
-  intros Hne Hy. destruct (step_uses cf (run cf ops) o (reachable_inv cf ops) Hne) as (k & Hk & d1 & (_ & _ & HB) & Hd).
-  destruct Hk as [Hk|Hk]; [|left; exists y'; rewrite <- Hk; auto].
-  assert (Hin : In y' d1).
-  { destruct Hd as [E|E]; rewrite E in Hy; [exact Hy|]. destruct d1; [contradiction|now right]. }
-  destruct (HB y' Hin) as [H|[E L]]; [left; exact H|right]. split; [congruence|exact L].
-Qed.
-
-(* ... and every use does refresh the stamp: after a call that installs, hits or recomputes after expiry, and
-   after a waiter's reuse of a flight's result, the key (while it is in the dict) carries a stamp >= the clock,
-   i.e. newer than every stamp of the state before (lru_order) *)
 Definition fresh_k (k : key) (ck : nat) (d : list slot) : Prop := forall y, In y d -> sk y = k -> ck <= ss y.
 
 Lemma fresh_dmove k ck st d : ck <= st -> fresh_k k ck (dmove k st d).
@@ -569,313 +229,695 @@ Proof.
   - exfalso. apply (dfind_none_keys _ _ E). rewrite <- Hk. apply in_keys, Hy.
 Qed.
 
-Lemma fresh_after cf s2 c k l ck :
-  fresh_k k ck (dict s2) -> ck <= clk s2 -> fresh_k k ck (dict (fst (acquire cf s2 c k l))).
+(* __call__ up to the lock: either it is over at once (rejected / maxsize = 0 / hit), or it goes on with
+   acquire / acquire_x from a state sp that satisfies the invariant *)
+Lemma enter_pre cf s c a x :
+  Inv cf s ->
+  let k := key_of cf a in
+  let s' := fst (enter cf s c a x) in
+  let r := snd (enter cf s c a x) in
+  (s' = s /\ r = RRejected) \/
+  (is_zero_max cf = true /\ dicts s' = dicts s /\ cur s' = cur s /\ produced s' = produced s /\
+     currsize s' = currsize s /\ r = RBlocked /\ phase s' c = CBypass k None x) \/
+  (exists y v exp, is_zero_max cf = false /\ phase s c = CIdle /\ dfind k (dict s) = Some y /\ se y = EVal v exp /\
+     expired exp (now s) = false /\
+     dicts s' = upd (dicts s) (cur s) (dmove k (clk s) (dict s)) /\ cur s' = cur s /\ produced s' = produced s /\
+     currsize s' = currsize s /\
+     ((r = RRet v /\ forall c0, phase s' c0 = phase s c0) \/ (r = RBlocked /\ phase s' c = CHitCk k v x))) \/
+  (exists sp l, is_zero_max cf = false /\ phase sp c = CIdle /\ Inv cf sp /\
+     enter cf s c a x = (if x then acquire_x else acquire) cf sp c k l /\
+     produced sp = produced s /\ cur sp = cur s /\ (forall g, g <> cur s -> dicts sp g = dicts s g) /\
+     touched k (clk s) (dict s) (dict sp) /\ clk s <= clk sp /\ now sp = now s /\
+     (exists b, dget k (dict sp) = Some (EPlace l b)) /\
+     (currsize sp <= currsize s)%Z /\
+     ((forall l0 b0, dget k (dict s) <> Some (EPlace l0 b0)) -> fresh_k k (clk s) (dict sp))).
 Proof.
-  intros HF Hc. destruct (acquire_dict cf s2 c k l) as [E|[E|E]]; rewrite E.
-  - exact HF.
-  - intros y Hy. apply HF. destruct (dict s2); [contradiction|now right].
-  - now apply fresh_dmove.
+  intros IJ. pose proof IJ as [I J]. cbv zeta. unfold enter.
+  destruct (Nat.ltb c (ncall cf)) eqn:Hlt; cbn [negb]; [|left; auto]. apply Nat.ltb_lt in Hlt.
+  destruct (phase s c) eqn:Hp; cbn [is_cidle negb]; try (left; auto; fail).
+  cbv zeta. set (k := key_of cf a).
+  destruct (is_zero_max cf) eqn:Hz.
+  { right. left. cbn [fst snd]. sm. rewrite upd_same. auto 10. }
+  right. right.
+  set (s0 := set_has_dict s).
+  assert (IJ0 : Inv cf s0) by (split; [apply inv1_has_dict, I|apply inv2_has_dict, J]).
+  change (dict s0) with (dict s). change (now s0) with (now s).
+  destruct (dfind k (dict s)) as [y|] eqn:Hfind.
+  - destruct (dfind_some _ _ _ Hfind) as [Hky Hin]. destruct (se y) as [l b|v exp] eqn:Hse.
+    + right. exists s0, l. refine (conj eq_refl (conj Hp (conj IJ0 (conj eq_refl _)))).
+      refine (conj eq_refl (conj eq_refl (conj (fun _ _ => eq_refl) (conj _ (conj (le_n _) (conj eq_refl _)))))).
+      * apply touched_refl, (I_sorted _ _ I).
+      * split; [exists b; change (dict s0) with (dict s); rewrite (dget_find _ _ _ Hfind), Hse; reflexivity|].
+        split; [cbn; lia|]. intros Hno. exfalso. apply (Hno l b). rewrite (dget_find _ _ _ Hfind), Hse. reflexivity.
+    + destruct (expired exp (now s)) eqn:Hexp.
+      * right. set (s4 := bump_clk _). exists s4, (nlock s).
+        set (sm := mk (upd (dicts s0) (cur s0) (dset_in k (EPlace (nlock s0) false) (dict s0))) (cur s0) (has_dict s0)
+                      (hits s0) (misses s0) (currsize s0 - 1)%Z
+                      (upd (locks s0) (nlock s0) (Lock.init (negb (ackpt cf)))) (S (nlock s0)) (phase s0) (now s0)
+                      (clk s0) (upd (lkey s0) (nlock s0) k) (produced s0)
+                      (fl_or_waited (fl s0) (waited cf s0 k (cur s0)))).
+        destruct IJ0 as [I0 J0].
+        assert (Im : Inv cf sm) by (split; [exact (inv1_expire cf s0 k y v exp I0 Hfind Hse)|
+                                             exact (inv2_expire cf s0 k y v exp J0 Hfind Hse)]).
+        assert (I4 : Inv cf s4).
+        { destruct Im as [Im1 Im2].
+          pose proof (inv1_touch cf sm (cur sm) k (hits s) (misses s) Im1) as T1.
+          pose proof (inv2_touch cf sm (cur sm) k (hits s) (misses s) Im1 Im2) as T2.
+          split.
+          - apply (inv1_same _ _ _ T1); unfold s4, sm, s0; sm; try reflexivity; try (intros H; exact H).
+            intros g0. destruct (Nat.eq_dec g0 (cur s)) as [->|N]; [now rewrite !upd_same|now rewrite !upd_other].
+          - apply (inv2_same _ _ _ T2); unfold s4, sm, s0; sm; try reflexivity; try (intros H; exact H).
+            intros g0. destruct (Nat.eq_dec g0 (cur s)) as [->|N]; [now rewrite !upd_same|now rewrite !upd_other]. }
+        refine (conj eq_refl (conj Hp (conj I4 (conj eq_refl _)))).
+        assert (Hb : forall z, In z (dset_in k (EPlace (nlock s) false) (dict s)) -> ss z < clk s).
+        { intros z Hzz. apply in_dset_in in Hzz. destruct Hzz as [Hzz|(w & Hw & _ & ->)]; [apply (I_stamp _ _ I _ _ Hzz)|].
+          cbn. apply (I_stamp _ _ I _ _ Hw). }
+        refine (conj eq_refl (conj eq_refl (conj _ (conj _ (conj _ (conj eq_refl _)))))).
+        -- intros g N. unfold s4, s0. sm. now rewrite upd_other.
+        -- unfold s4, s0. sm. rewrite upd_same.
+           eapply touched_trans; [apply touched_dset_in, (I_sorted _ _ I)|].
+           apply touched_dmove; [apply sorted_dset_in, (I_sorted _ _ I)|exact Hb|lia].
+        -- unfold s4, s0. sm. lia.
+        -- split; [exists false; unfold s4, s0; sm; rewrite upd_same, dget_dmove, dget_dset_in_same, (dget_find _ _ _ Hfind); reflexivity|].
+           split; [unfold s4, s0; sm; lia|]. intros _. unfold s4, s0. sm. rewrite upd_same. apply fresh_dmove. lia.
+      * left. exists y, v, exp. refine (conj eq_refl (conj eq_refl (conj eq_refl (conj Hse (conj Hexp _))))).
+        destruct (ackpt cf); cbn [fst snd]; unfold s0; sm; rewrite ?upd_same.
+        -- refine (conj eq_refl (conj eq_refl (conj eq_refl (conj eq_refl _)))). right. auto.
+        -- refine (conj eq_refl (conj eq_refl (conj eq_refl (conj eq_refl _)))). left. auto.
+  - right. set (s2 := bump_clk _). exists s2, (nlock s).
+    destruct IJ0 as [I0 J0].
+    assert (I2 : Inv cf s2) by (split; [exact (inv1_install cf s0 k I0 Hfind)|exact (inv2_install cf s0 k J0)]).
+    refine (conj eq_refl (conj Hp (conj I2 (conj eq_refl _)))).
+    refine (conj eq_refl (conj eq_refl (conj _ (conj _ (conj _ (conj eq_refl _)))))).
+    + intros g N. unfold s2, s0. sm. now rewrite upd_other.
+    + unfold s2, s0. sm. rewrite upd_same. apply touched_app; [apply (I_sorted _ _ I)|apply (I_stamp _ _ I)|lia].
+    + unfold s2, s0. sm. lia.
+    + split; [exists false; unfold s2, s0; sm; rewrite upd_same, dget_app, (dget_none_find _ _ Hfind), Nat.eqb_refl; reflexivity|].
+      split; [unfold s2, s0; sm; lia|]. intros _. unfold s2, s0. sm. rewrite upd_same.
+      intros z Hzz Hkz. apply in_app_or in Hzz. destruct Hzz as [Hzz|[<-|[]]]; [|cbn; lia].
+      exfalso. apply (dfind_none_keys _ _ Hfind). rewrite <- Hkz. apply in_keys, Hzz.
 Qed.
 
-Theorem lru_use_refreshes cf ops o k :
-  ((exists c a, o = Call c a /\ key_of cf a = k /\ snd (step cf (run cf ops) o) <> RRejected /\
-      is_zero_max cf = false /\ (forall l, dget k (dict (run cf ops)) <> Some (EPlace l))) \/
-   (exists c l t0 v, o = Resume c /\ phase (run cf ops) c = CLockWait k l t0 /\
-      snd (step cf (run cf ops) o) = RRet v)) ->
-  forall y, In y (dict (fst (step cf (run cf ops) o))) -> sk y = k -> clk (run cf ops) <= ss y.
+(* the acquire of an entry that is a placeholder never returns a value *)
+Lemma acq_no_ret cf sp c k l b (x : bool) v :
+  dget k (dict sp) = Some (EPlace l b) ->
+  snd ((if x then acquire_x else acquire) cf sp c k l) <> RRet v.
 Proof.
-  pose proof (reachable_inv cf ops) as I. set (s := run cf ops) in *.
-  intros [(c & a & -> & Hk & Hacc & Hz & Hnp)|(c & l & t0 & v & -> & Hp & Hr)].
-  - revert Hacc. unfold step.
-    destruct (Nat.ltb c (ncall cf)); cbn [negb]; [|cbn; congruence].
-    destruct (is_cidle (phase s c)); cbn [negb]; [|cbn; congruence].
-    rewrite Hz, Hk. intros _.
-    destruct (dfind k (dict s)) as [x|] eqn:Hfind.
-    + destruct (se x) as [l|v1 exp] eqn:Hse.
-      * exfalso. apply (Hnp l). rewrite (dget_find _ _ _ Hfind), Hse. reflexivity.
-      * destruct (expired exp (now s)); cbv zeta.
-        -- apply fresh_after; sm; [apply fresh_dmove|]; lia.
-        -- destruct (ackpt cf); cbn [fst]; sm; apply fresh_dmove; lia.
-    + cbv zeta. apply fresh_after; sm; [|lia].
-      intros y Hy Hky. apply in_app_or in Hy. destruct Hy as [Hy|[<-|[]]]; [|cbn; lia].
-      exfalso. apply (dfind_none_keys _ _ Hfind). rewrite <- Hky. apply in_keys, Hy.
-  - revert Hr. unfold step. rewrite Hp, lock_do_eq.
-    destruct (snd (Lock.step _ _)); cbn [fst snd]; try discriminate.
-    match goal with |- context [body cf ?s1 c k l] => intros Hr; rewrite (body_ret_dict cf s1 c k l v Hr) end.
-    sm. apply fresh_dmove. lia.
+  intros Hd. destruct x.
+  - pose proof (acquire_x_facts cf sp c k l) as FF; cbv zeta in FF; destruct FF as (_ & _ & _ & _ & [H|H] & _); rewrite H; discriminate.
+  - pose proof (acquire_facts cf sp c k l) as FF; cbv zeta in FF; destruct FF as (_ & _ & _ & _ & H & _). cbv zeta in H.
+    destruct H as [H|[H|[[H _]|(y & v2 & e2 & H & H3 & H4)]]]; try (rewrite H; discriminate).
+    exfalso. pose proof (dget_find _ _ _ H3) as Hg. unfold dict in Hd. rewrite Hd, H4 in Hg. discriminate.
+Qed.
+
+Lemma acq_produced cf sp c k l (x : bool) :
+  produced (fst ((if x then acquire_x else acquire) cf sp c k l)) = produced sp.
+Proof. destruct x; [apply acquire_x_facts|apply acquire_facts]. Qed.
+
+(* ------------------------------------------------------------------------------------------------ *)
+(* 1. right value                                                                                     *)
+(* ------------------------------------------------------------------------------------------------ *)
+Definition call_key (cf : cfg) (s : st) (o : op) : option key :=
+  match o with
+  | Call c a => Some (key_of cf a)
+  | CallX c a => Some (key_of cf a)
+  | Resume c =>
+      match phase s c with
+      | CEntryCk k => Some k
+      | CLockWait k _ _ _ => Some k | CInWrapped k _ _ _ _ => Some k | CHitCk k _ _ => Some k
+      | CBypass k _ _ => Some k | CIdle => None
+      end
+  | _ => None
+  end.
+
+Lemma enter_value cf s c a x v :
+  Inv cf s -> snd (enter cf s c a x) = RRet v -> In (key_of cf a, v) (produced (fst (enter cf s c a x))).
+Proof.
+  intros IJ Hr. pose proof IJ as [I J].
+  destruct (enter_pre cf s c a x IJ) as [[_ H]|[(_ & _ & _ & _ & _ & H & _)|[H|H]]]; cbv zeta in *.
+  - congruence.
+  - congruence.
+  - destruct H as (y & v0 & exp & _ & _ & Hf & Hse & _ & _ & _ & Hpr & _ & Hres).
+    rewrite Hpr. destruct (dfind_some _ _ _ Hf) as [Hk Hin].
+    destruct Hres as [[Hres _]|[Hres _]]; [|congruence]. assert (v0 = v) by congruence. subst v0.
+    rewrite <- Hk. apply (I_vdict _ _ I _ y v exp Hin Hse).
+  - destruct H as (sp & l & _ & _ & _ & E & _ & _ & _ & _ & _ & _ & [b Hd] & _). rewrite E in Hr.
+    exfalso. eapply acq_no_ret; eauto.
+Qed.
+
+Lemma step_value cf s o s' v :
+  Inv cf s -> step cf s o = (s', RRet v) -> exists k, call_key cf s o = Some k /\ In (k, v) (produced s').
+Proof.
+  intros IJ Hs. pose proof IJ as [I J].
+  assert (Hfs : s' = fst (step cf s o)) by now rewrite Hs.
+  assert (Hsn : snd (step cf s o) = RRet v) by now rewrite Hs.
+  clear Hs. subst s'. destruct o as [c a|c a|c v0|c e|c|c| | |]; unfold step in *.
+  - exists (key_of cf a). split; [reflexivity|]. now apply enter_value.
+  - exists (key_of cf a). split; [reflexivity|]. now apply enter_value.
+  - exfalso. revert Hsn. destruct (phase s c) as [|k|k l t0 g|k l [w|] [|] g|k v1 b|k [w|] [|]]; discriminate.
+  - exfalso. revert Hsn. destruct (phase s c) as [|k|k l t0 g|k l [w|] [|] g|k v1 b|k [w|] [|]]; discriminate.
+  - exfalso. revert Hsn. destruct (phase s c) as [|k|k l t0 g|k l w b g|k v1 b|k w b]; try discriminate.
+    rewrite lock_do_eq. discriminate.
+  - (* Resume *)
+    cbn [call_key]. destruct (phase s c) as [|k|k l t0 g|k l w b g|k v1 b|k w b] eqn:Hp; [discriminate| | | | |].
+    + discriminate.
+    + exists k. split; [reflexivity|]. revert Hsn. rewrite lock_do_eq.
+      destruct (snd (Lock.step _ _)); cbn [fst snd]; try discriminate.
+      match goal with |- context [body cf ?s1 c k l g] => pose proof (body_facts cf s1 c k l g) as H end.
+      cbv zeta in H. destruct H as (H1 & _ & _ & _ & H2 & _). rewrite H1. sm. intros E. rewrite E in H2.
+      destruct H2 as [H2|[[H2 _]|[[H2 _]|(y & v2 & e2 & H2 & H3 & H4 & _)]]]; try discriminate.
+      injection H2 as <-. destruct (dfind_some _ _ _ H3) as [Hk Hin]. rewrite <- Hk.
+      apply (I_vdict _ _ I _ y v e2 Hin H4).
+    + exists k. split; [reflexivity|]. revert Hsn. cbv zeta. destruct b.
+      * rewrite release_eq. destruct (snd (Lock.step _ _)); discriminate.
+      * destruct w as [[v2|e]|]; [| |discriminate].
+        -- rewrite release_eq. destruct (snd (Lock.step _ _)); cbn [finish fst snd]; try discriminate.
+           intros [= <-]. sm. now left.
+        -- rewrite release_eq. destruct (snd (Lock.step _ _)); discriminate.
+    + exists k. split; [reflexivity|]. revert Hsn. cbn [fst snd]. destruct b; [discriminate|].
+      intros [= <-]. sm. apply (I_vhit _ _ I _ _ _ _ Hp).
+    + exists k. split; [reflexivity|]. revert Hsn. destruct b; [discriminate|].
+      destruct w as [[v2|e]|]; try discriminate. cbn [fst snd]. intros [= <-]. sm. now left.
+  - discriminate Hsn.
+  - exfalso. revert Hsn. destruct (has_dict s); discriminate.
+  - exfalso. revert Hsn. destruct (all_idle cf s); discriminate.
+Qed.
+
+(* a call returns only a value that some execution of the wrapped function returned for the same key *)
+Theorem lru_value_faithful cf ops o s' v :
+  step cf (run cf ops) o = (s', RRet v) ->
+  exists k, call_key cf (run cf ops) o = Some k /\ In (k, v) (produced s').
+Proof. apply step_value, reachable_inv. Qed.
+
+Lemma enter_produced cf s c a x : Inv cf s -> produced (fst (enter cf s c a x)) = produced s.
+Proof.
+  intros IJ.
+  destruct (enter_pre cf s c a x IJ) as [[H _]|[(_ & _ & _ & H & _)|[H|H]]]; cbv zeta in *.
+  - now rewrite H.
+  - exact H.
+  - destruct H as (y & v0 & exp & _ & _ & _ & _ & _ & _ & _ & Hpr & _). exact Hpr.
+  - destruct H as (sp & l & _ & _ & _ & E & Hpr & _). rewrite E, acq_produced. exact Hpr.
+Qed.
+
+(* `produced` grows only when the wrapped function of a caller returns: (k, v) is logged exactly when the
+   execution for key k started by that caller is resumed with the oracle value v *)
+Theorem lru_produced_only_by_wrapped cf ops o :
+  let s := run cf ops in
+  produced (fst (step cf s o)) = produced s \/
+  exists c k v, o = Resume c /\ produced (fst (step cf s o)) = (k, v) :: produced s /\
+    ((exists l g, phase s c = CInWrapped k l (Some (WRet v)) false g) \/ phase s c = CBypass k (Some (WRet v)) false).
+Proof.
+  cbv zeta. pose proof (reachable_inv cf ops) as IJ. set (s := run cf ops) in *.
+  destruct o as [c a|c a|c v0|c e|c|c| | |]; unfold step.
+  - left. now apply enter_produced.
+  - left. now apply enter_produced.
+  - left. destruct (phase s c) as [|k|k l t0 g|k l [w|] [|] g|k v1 b|k [w|] [|]]; reflexivity.
+  - left. destruct (phase s c) as [|k|k l t0 g|k l [w|] [|] g|k v1 b|k [w|] [|]]; reflexivity.
+  - left. destruct (phase s c) as [|k|k l t0 g|k l w b g|k v1 b|k w b]; try reflexivity.
+    rewrite lock_do_eq. reflexivity.
+  - destruct (phase s c) as [|k|k l t0 g|k l w b g|k v1 b|k w b] eqn:Hp; [left; reflexivity| | | | |].
+    + left. reflexivity.
+    + left. rewrite lock_do_eq. destruct (snd (Lock.step _ _)); cbn [fst snd]; try reflexivity.
+      match goal with |- context [body cf ?s1 c k l g] => pose proof (body_facts cf s1 c k l g) as FF; cbv zeta in FF; destruct FF as [H1 _] end.
+      cbv zeta in H1. rewrite H1. reflexivity.
+    + cbv zeta. destruct b.
+      * left. rewrite release_eq. reflexivity.
+      * destruct w as [[v2|e]|]; [| |left; reflexivity].
+        -- right. exists c, k, v2. split; [reflexivity|]. split; [|left; eauto].
+           rewrite release_eq. reflexivity.
+        -- left. rewrite release_eq. reflexivity.
+    + left. reflexivity.
+    + destruct b; [left; reflexivity|]. destruct w as [[v2|e]|]; [| |left; reflexivity].
+      * right. exists c, k, v2. split; [reflexivity|]. split; [reflexivity|right; exact Hp].
+      * left. reflexivity.
+  - left. reflexivity.
+  - left. destruct (has_dict s); reflexivity.
+  - left. destruct (all_idle cf s); reflexivity.
+Qed.
+
+(* a call raises (other than CancelledError) only what its own execution of the wrapped function raised *)
+Theorem lru_raises_own cf ops o e :
+  let s := run cf ops in
+  snd (step cf s o) = RExc e ->
+  exists c k, o = Resume c /\
+    ((exists l g, phase s c = CInWrapped k l (Some (WExc e)) false g) \/ phase s c = CBypass k (Some (WExc e)) false).
+Proof.
+  cbv zeta. pose proof (reachable_inv cf ops) as IJ. set (s := run cf ops) in *.
+  assert (Hent : forall c a x, snd (enter cf s c a x) <> RExc e).
+  { intros c a x Hr.
+    destruct (enter_pre cf s c a x IJ) as [[_ H]|[(_ & _ & _ & _ & _ & H & _)|[H|H]]]; cbv zeta in *; try congruence.
+    - destruct H as (y & v0 & exp & _ & _ & _ & _ & _ & _ & _ & _ & _ & [[H _]|[H _]]); congruence.
+    - destruct H as (sp & l & _ & _ & _ & E & _). rewrite E in Hr. destruct x.
+      + pose proof (acquire_x_facts cf sp c (key_of cf a) l) as FF; cbv zeta in FF; destruct FF as (_ & _ & _ & _ & [H|H] & _); congruence.
+      + pose proof (acquire_facts cf sp c (key_of cf a) l) as FF; cbv zeta in FF; destruct FF as (_ & _ & _ & _ & H & _). cbv zeta in H.
+        destruct H as [H|[H|[[H _]|(y & v2 & e2 & H & _)]]]; congruence. }
+  destruct o as [c a|c a|c v0|c e0|c|c| | |]; unfold step.
+  - intros H. exfalso. eapply Hent; eauto.
+  - intros H. exfalso. eapply Hent; eauto.
+  - destruct (phase s c) as [|k|k l t0 g|k l [w|] [|] g|k v1 b|k [w|] [|]]; discriminate.
+  - destruct (phase s c) as [|k|k l t0 g|k l [w|] [|] g|k v1 b|k [w|] [|]]; discriminate.
+  - destruct (phase s c) as [|k|k l t0 g|k l w b g|k v1 b|k w b]; try discriminate. rewrite lock_do_eq. discriminate.
+  - destruct (phase s c) as [|k|k l t0 g|k l w b g|k v1 b|k w b] eqn:Hp; [discriminate| | | | |].
+    + discriminate.
+    + rewrite lock_do_eq. destruct (snd (Lock.step _ _)); cbn [fst snd]; try discriminate.
+      match goal with |- context [body cf ?s1 c k l g] => pose proof (body_facts cf s1 c k l g) as FF; cbv zeta in FF; destruct FF as (_ & _ & _ & _ & H & _) end.
+      cbv zeta in H. intros E. rewrite E in H.
+      destruct H as [H|[[H _]|[[H _]|(y & v2 & e2 & H & _)]]]; discriminate.
+    + cbv zeta. destruct b.
+      * rewrite release_eq. destruct (snd (Lock.step _ _)); discriminate.
+      * destruct w as [[v2|e2]|]; [| |discriminate].
+        -- rewrite release_eq. destruct (snd (Lock.step _ _)); discriminate.
+        -- rewrite release_eq. destruct (snd (Lock.step _ _)); cbn [finish fst snd]; try discriminate.
+           intros [= <-]. exists c, k. split; [reflexivity|]. left. eauto.
+    + destruct b; discriminate.
+    + destruct b; [discriminate|]. destruct w as [[v2|e2]|]; try discriminate.
+      cbn [fst snd]. intros [= <-]. exists c, k. split; [reflexivity|]. right. exact Hp.
+  - discriminate.
+  - destruct (has_dict s); discriminate.
+  - destruct (all_idle cf s); discriminate.
 Qed.
 
 (* ------------------------------------------------------------------------------------------------ *)
-(* 6. an expired entry is recomputed, not served                                                      *)
+(* 2. single flight                                                                                   *)
+(* ------------------------------------------------------------------------------------------------ *)
+(* caller c is executing the wrapped function for key k *)
+Definition executing (s : st) (c : cid) (k : key) : Prop :=
+  (exists l p b g, phase s c = CInWrapped k l p b g) \/ (exists p b, phase s c = CBypass k p b).
+
+Theorem lru_single_flight cf ops c1 c2 k :
+  maxsize_pos cf -> no_inflight_eviction cf ops -> no_waited_eviction cf ops -> no_other_loop cf ops ->
+  executing (run cf ops) c1 k -> executing (run cf ops) c2 k -> c1 = c2.
+Proof.
+  intros Hz Hf Hw Hph E1 E2. pose proof (reachable_inv1 cf ops) as I. set (s := run cf ops) in *.
+  assert (Hnb : forall c p b, phase s c <> CBypass k p b).
+  { intros c p b H. pose proof (I_byp _ _ I c) as Hb. rewrite H in Hb. unfold maxsize_pos in Hz.
+    rewrite (Hb eq_refl) in Hz. discriminate. }
+  destruct E1 as [(l1 & p1 & b1 & g1 & H1)|(p1 & b1 & H1)]; [|exfalso; eapply Hnb; eauto].
+  destruct E2 as [(l2 & p2 & b2 & g2 & H2)|(p2 & b2 & H2)]; [|exfalso; eapply Hnb; eauto].
+  assert (g1 = cur s) by (apply (I_gen _ _ I Hph c1); now rewrite H1).
+  assert (g2 = cur s) by (apply (I_gen _ _ I Hph c2); now rewrite H2). subst g1 g2.
+  pose proof (I_A _ _ I Hf Hw _ _ _ _ _ _ H1) as A1. pose proof (I_A _ _ I Hf Hw _ _ _ _ _ _ H2) as A2.
+  assert (l1 = l2) by congruence. subst l2.
+  eapply held_unique; [apply (L_inv _ _ _ _ _ (I_lp _ _ I) l1)| |];
+    eapply (L_run _ _ _ _ _ (I_lp _ _ I)); eauto.
+Qed.
+
+(* later callers reuse the first result: a caller that waited for the entry's lock and finds the value stored
+   returns that value (or is cancelled) and never starts an execution of its own *)
+Theorem lru_reuse_first_result cf ops c k l t0 g v e :
+  phase (run cf ops) c = CLockWait k l t0 g ->
+  dget k (dicts (run cf ops) g) = Some (EVal v e) ->
+  let r := snd (step cf (run cf ops) (Resume c)) in
+  r = RRet v \/ r = RCancelled \/ r = RRejected.
+Proof.
+  intros Hp Hd. pose proof (reachable_inv cf ops) as I. set (s := run cf ops) in *.
+  destruct (step_ok cf s (Resume c) I) as [_ [Hgood _]].
+  cbv zeta. revert Hgood. unfold step. rewrite Hp, lock_do_eq.
+  destruct (snd (Lock.step _ _)); cbn [fst snd]; auto; try congruence.
+  match goal with |- context [body cf ?s1 c k l g] => pose proof (body_facts cf s1 c k l g) as H end.
+  cbv zeta in H. sm. destruct H as (_ & _ & _ & _ & H & _). intros Hg.
+  destruct (dget_some _ _ _ Hd) as (x & Hx & Hse & _).
+  destruct H as [H|[[_ H]|[[_ [(y & l' & b' & H & H') _]]|(y & v2 & e2 & H & H1 & H2 & _)]]]; try congruence.
+  left. rewrite H. congruence.
+Qed.
+
+(* ------------------------------------------------------------------------------------------------ *)
+(* 3. calls with different arguments do not block one another                                         *)
+(* ------------------------------------------------------------------------------------------------ *)
+Theorem lru_distinct_keys_independent cf ops c k l t0 g :
+  phase (run cf ops) c = CLockWait k l t0 g ->
+  lkey (run cf ops) l = k /\
+  (forall c', Lock.phase_of (locks (run cf ops) l) c' <> Lock.Idle \/ In c' (Lock.held (locks (run cf ops) l)) ->
+     (exists t g', phase (run cf ops) c' = CLockWait k l t g') \/
+     (exists p b g', phase (run cf ops) c' = CInWrapped k l p b g')) /\
+  (forall c', Lock.owner (locks (run cf ops) l) = Some c' ->
+     (exists t g', phase (run cf ops) c' = CLockWait k l t g') \/
+     (exists p b g', phase (run cf ops) c' = CInWrapped k l p b g')).
+Proof.
+  intros Hp. pose proof (reachable_inv1 cf ops) as I. set (s := run cf ops) in *.
+  pose proof (I_lp _ _ I) as LPs.
+  assert (Hk : lkey s l = k) by (apply (L_ref _ _ _ _ _ LPs c); now rewrite Hp).
+  assert (Heng : forall c', engaged (locks s l) c' ->
+            (exists t g', phase s c' = CLockWait k l t g') \/ (exists p b g', phase s c' = CInWrapped k l p b g')).
+  { intros c' He. destruct (L_eng _ _ _ _ _ LPs l c' He) as [k' Hk'].
+    destruct (L_ref _ _ _ _ _ LPs c' k' l Hk') as [_ E]. assert (Ek : k' = k) by congruence.
+    destruct (phase s c') as [|k1|k1 l1 t1 g1|k1 l1 p1 b1 g1|k1 v1 b1|k1 p1 b1]; cbn in Hk'; try discriminate;
+      injection Hk' as E1 E2.
+    - left. exists t1, g1. congruence.
+    - right. exists p1, b1, g1. congruence. }
+  refine (conj Hk (conj Heng _)).
+  intros c' Ho. apply Heng. apply (LockProofs.I_owner _ (L_inv _ _ _ _ _ LPs l)) in Ho.
+  destruct Ho as [H|[H|(f & H & _)]]; [right; exact H|left; congruence|left; congruence].
+Qed.
+
+(* ------------------------------------------------------------------------------------------------ *)
+(* 4. no internal error                                                                               *)
+(* ------------------------------------------------------------------------------------------------ *)
+Theorem lru_no_internal_error cf ops o :
+  no_inflight_eviction cf (ops ++ [o]) -> no_waited_eviction cf (ops ++ [o]) ->
+  snd (step cf (run cf ops) o) <> RKeyError /\ snd (step cf (run cf ops) o) <> RLockErr.
+Proof.
+  unfold no_inflight_eviction, no_waited_eviction, evicts_inflight, evicts_waited. rewrite run_snoc.
+  intros Hf Hw. destruct (step_ok cf (run cf ops) o (reachable_inv cf ops)) as [_ [H1 H2]]. auto.
+Qed.
+
+(* the embedded locks never report an error, whatever is evicted *)
+Theorem lru_no_lock_error cf ops o : snd (step cf (run cf ops) o) <> RLockErr.
+Proof. apply (step_ok cf (run cf ops) o (reachable_inv cf ops)). Qed.
+
+(* ------------------------------------------------------------------------------------------------ *)
+(* 5. bounded retention                                                                               *)
+(* ------------------------------------------------------------------------------------------------ *)
+(* results + counted placeholders (in particular: placeholders of running computations) of the running loop's
+   dict never exceed maxsize *)
+Theorem lru_bounded cf ops m :
+  no_inflight_eviction cf ops -> no_waited_eviction cf ops -> no_uncounted_eviction cf ops ->
+  maxsize cf = Some m ->
+  length (filter (fun x => negb (is_place (se x))) (dict (run cf ops))) +
+  length (filter (fun x => match se x with EPlace _ true => true | _ => false end) (dict (run cf ops))) <= m.
+Proof.
+  intros Hf Hw Hu Hm. destruct (I_bound _ _ (reachable_inv2 cf ops) Hf Hw Hu) as [H1 H2]. specialize (H2 m Hm).
+  change (nval (dict (run cf ops)) + ncnt (dict (run cf ops)) <= m). lia.
+Qed.
+
+(* every running computation of the current dict owns a counted placeholder (so it is included above) *)
+Theorem lru_running_is_counted cf ops c k l p b g :
+  no_inflight_eviction cf ops -> no_waited_eviction cf ops ->
+  phase (run cf ops) c = CInWrapped k l p b g -> dget k (dicts (run cf ops) g) = Some (EPlace l true).
+Proof. intros Hf Hw. apply (I_A _ _ (reachable_inv1 cf ops) Hf Hw). Qed.
+
+(* without any of the finding patterns the count is exact *)
+Theorem lru_count_exact cf ops :
+  no_inflight_eviction cf ops -> no_waited_eviction cf ops -> no_uncounted_eviction cf ops ->
+  no_dead_placeholder cf ops -> no_other_loop cf ops ->
+  currsize (run cf ops) =
+  Z.of_nat (length (filter (fun x => negb (is_place (se x))) (dict (run cf ops))) +
+            length (filter (fun x => match se x with EPlace _ true => true | _ => false end) (dict (run cf ops)))).
+Proof.
+  intros H1 H2 H3 H4 H5. apply (I_eq _ _ (reachable_inv2 cf ops)). unfold clean5. auto.
+Qed.
+
+(* an entry of the current dict disappears in a step (other than cache_clear / a new loop) only when the count
+   has reached maxsize ... *)
+Lemma step_evict_full cf s o :
+  Inv cf s -> o <> Clear -> o <> NewLoop ->
+  (exists key, In key (keys (dict s)) /\ ~ In key (keys (dict (fst (step cf s o))))) ->
+  exists m, maxsize cf = Some m /\ (Z.of_nat m <= currsize (fst (step cf s o)))%Z.
+Proof.
+  intros IJ Hn1 Hn2 (key & Hin & Hout). pose proof IJ as [I J].
+  assert (Hfull : forall s0, full cf s0 = true -> exists m, maxsize cf = Some m /\ (Z.of_nat m <= currsize s0)%Z).
+  { intros s0 H. unfold full in H. destruct (maxsize cf) as [m|]; [|discriminate]. exists m. split; [reflexivity|lia]. }
+  assert (Hbody : forall s1 c k l g,
+            cur (fst (body cf s1 c k l g)) = cur s1 ->
+            In key (keys (dicts s1 (cur s1))) -> ~ In key (keys (dicts (fst (body cf s1 c k l g)) (cur s1))) ->
+            exists m, maxsize cf = Some m /\ (Z.of_nat m <= currsize (fst (body cf s1 c k l g)))%Z).
+  { intros s1 c k l g _ H1 H2. pose proof (body_facts cf s1 c k l g) as F. cbv zeta in F.
+    destruct F as (_ & _ & Hoth & _ & _ & _ & Hev).
+    destruct (Nat.eq_dec (cur s1) g) as [<-|N]; [|exfalso; apply H2; rewrite (Hoth _ N); exact H1].
+    destruct (Hev (ex_intro _ key (conj H1 H2))) as [Hf Hc]. rewrite Hc. now apply Hfull. }
+  destruct o as [c a|c a|c v0|c e|c|c| | |]; try contradiction; unfold step in *.
+  - (* Call *)
+    destruct (enter_pre cf s c a false IJ) as [[H _]|[(_ & H & H' & _)|[H|H]]]; cbv zeta in *.
+    + exfalso. apply Hout. now rewrite H.
+    + exfalso. apply Hout. unfold dict. now rewrite H, H'.
+    + destruct H as (y & v0 & exp & _ & _ & _ & _ & _ & Hd & Hc & _). exfalso. apply Hout.
+      unfold dict. rewrite Hd, Hc, upd_same. now apply keys_dmove_in.
+    + destruct H as (sp & l & _ & _ & _ & E & _ & Hc & _ & (_ & HT & _) & _ & _ & _ & Hcs & _).
+      rewrite E in *. pose proof (acquire_facts cf sp c (key_of cf a) l) as F. cbv zeta in F.
+      destruct F as (_ & Hc' & _ & _ & _ & _ & Hev).
+      assert (Hin' : In key (keys (dicts sp (cur sp)))).
+      { destruct (in_keys_ex _ _ Hin) as (z & Hz & <-). destruct (HT z Hz) as (z' & Hz' & <- & _). apply in_keys, Hz'. }
+      unfold dict in Hout. rewrite Hc' in Hout.
+      destruct (Hev (ex_intro _ key (conj Hin' Hout))) as [Hf Hcc]. rewrite Hcc. now apply Hfull.
+  - (* CallX: never evicts *)
+    destruct (enter_pre cf s c a true IJ) as [[H _]|[(_ & H & H' & _)|[H|H]]]; cbv zeta in *.
+    + exfalso. apply Hout. now rewrite H.
+    + exfalso. apply Hout. unfold dict. now rewrite H, H'.
+    + destruct H as (y & v0 & exp & _ & _ & _ & _ & _ & Hd & Hc & _). exfalso. apply Hout.
+      unfold dict. rewrite Hd, Hc, upd_same. now apply keys_dmove_in.
+    + destruct H as (sp & l & _ & _ & _ & E & _ & Hc & _ & (_ & HT & _) & _).
+      rewrite E in *. pose proof (acquire_x_facts cf sp c (key_of cf a) l) as F. cbv zeta in F.
+      destruct F as (_ & Hc' & Hd' & _). exfalso. apply Hout. unfold dict. rewrite Hc', Hd'.
+      destruct (in_keys_ex _ _ Hin) as (z & Hz & <-). destruct (HT z Hz) as (z' & Hz' & <- & _). apply in_keys, Hz'.
+  - exfalso. apply Hout. destruct (phase s c) as [|k|k l t0 g|k l [w|] [|] g|k v1 b|k [w|] [|]]; exact Hin.
+  - exfalso. apply Hout. destruct (phase s c) as [|k|k l t0 g|k l [w|] [|] g|k v1 b|k [w|] [|]]; exact Hin.
+  - exfalso. apply Hout. destruct (phase s c) as [|k|k l t0 g|k l w b g|k v1 b|k w b]; try exact Hin.
+    rewrite lock_do_eq. exact Hin.
+  - destruct (phase s c) as [|k|k l t0 g|k l w b g|k v1 b|k w b] eqn:Hp; try (exfalso; apply Hout; exact Hin).
+    + revert Hout. rewrite lock_do_eq. destruct (snd (Lock.step _ _)); cbn [fst snd]; try (intros Hout; exfalso; apply Hout; exact Hin).
+      intros Hout.
+      match goal with |- context [body cf ?s1 c k l g] =>
+        pose proof (body_facts cf s1 c k l g) as F; cbv zeta in F; destruct F as (_ & Hc1 & _);
+        apply (Hbody s1 c k l g Hc1); [exact Hin|] end.
+      unfold dict in Hout. rewrite Hc1 in Hout. exact Hout.
+    + exfalso. apply Hout. cbv zeta. destruct b.
+      * rewrite release_eq. exact Hin.
+      * destruct w as [[v2|e]|]; [| |exact Hin].
+        -- rewrite release_eq. cbn [finish fst]. unfold dict in *. sm.
+           destruct (Nat.eq_dec (cur s) g) as [<-|N]; [rewrite upd_same|now rewrite upd_other].
+           unfold dstore. destruct (dfind k (dicts s (cur s))); [now rewrite keys_dset_in|].
+           unfold keys. rewrite map_app. apply in_or_app. now left.
+        -- rewrite release_eq. exact Hin.
+    + exfalso. apply Hout. destruct b; [exact Hin|]. destruct w as [[v2|e]|]; exact Hin.
+Qed.
+
+(* ... and, without any of the finding patterns, exactly when the number of counted live entries is maxsize:
+   after the evicting step the dict holds maxsize counted entries (results + the evictor's own placeholder) *)
+Theorem lru_evicts_only_when_full cf ops o key :
+  no_inflight_eviction cf (ops ++ [o]) -> no_waited_eviction cf (ops ++ [o]) ->
+  no_uncounted_eviction cf (ops ++ [o]) -> no_dead_placeholder cf (ops ++ [o]) -> no_other_loop cf (ops ++ [o]) ->
+  o <> Clear -> o <> NewLoop ->
+  In key (map sk (dict (run cf ops))) -> ~ In key (map sk (dict (run cf (ops ++ [o])))) ->
+  exists m, maxsize cf = Some m /\
+    length (filter (fun x => negb (is_place (se x))) (dict (run cf (ops ++ [o])))) +
+    length (filter (fun x => match se x with EPlace _ true => true | _ => false end) (dict (run cf (ops ++ [o])))) = m.
+Proof.
+  intros H1 H2 H3 H4 H5 Hn1 Hn2 Hin Hout.
+  pose proof (reachable_inv2 cf (ops ++ [o])) as J'.
+  assert (HC : clean5 (run cf (ops ++ [o]))) by (unfold clean5; auto).
+  pose proof (I_eq _ _ J' HC) as Heq. destruct (I_bound _ _ J' H1 H2 H3) as [_ Hle].
+  rewrite run_snoc in *.
+  destruct (step_evict_full cf (run cf ops) o (reachable_inv cf ops) Hn1 Hn2 (ex_intro _ key (conj Hin Hout)))
+    as (m & Hm & Hge).
+  exists m. split; [exact Hm|]. specialize (Hle m Hm).
+  change (nval (dict (fst (step cf (run cf ops) o))) + ncnt (dict (fst (step cf (run cf ops) o))) = m). lia.
+Qed.
+
+(* ------------------------------------------------------------------------------------------------ *)
+(* 6. least recently used first                                                                       *)
+(* ------------------------------------------------------------------------------------------------ *)
+Theorem lru_order cf ops g :
+  NoDup (map sk (dicts (run cf ops) g)) /\
+  StronglySorted (fun a b => ss a < ss b) (dicts (run cf ops) g) /\
+  (forall x, In x (dicts (run cf ops) g) -> ss x < clk (run cf ops)).
+Proof.
+  pose proof (reachable_inv1 cf ops) as I.
+  exact (conj (I_nodup _ _ I g) (conj (I_sorted _ _ I g) (I_stamp _ _ I g))).
+Qed.
+
+Lemma after_uses cf sp g k ck d d' :
+  Inv1 cf sp -> touched k ck d (dicts sp g) -> ck <= clk sp ->
+  d' = dicts sp g \/ d' = dmark k (dicts sp g) \/ d' = dmark k (tl (dicts sp g)) \/
+  d' = dmove k (clk sp) (dicts sp g) ->
+  touch_or_evict k ck d d'.
+Proof.
+  intros I HT Hc [->|[->|[->| ->]]].
+  - exists (dicts sp g), k. auto.
+  - exists (dicts sp g), k. auto.
+  - exists (dicts sp g), k. auto.
+  - exists (dmove k (clk sp) (dicts sp g)), k. split; [|now left].
+    eapply touched_trans; [exact HT|]. apply touched_dmove; [apply (I_sorted _ _ I)|apply (I_stamp _ _ I g)|exact Hc].
+Qed.
+
+Lemma step_uses cf s o g :
+  Inv cf s -> o <> Clear -> o <> NewLoop ->
+  exists k, (call_key cf s o = Some k \/ dicts (fst (step cf s o)) g = dicts s g) /\
+            touch_or_evict k (clk s) (dicts s g) (dicts (fst (step cf s o)) g).
+Proof.
+  intros IJ Hn1 Hn2. pose proof IJ as [I J].
+  assert (Hsame : forall d', d' = dicts s g -> exists k, (call_key cf s o = Some k \/ d' = dicts s g) /\
+                                                    touch_or_evict k (clk s) (dicts s g) d').
+  { intros d' ->. exists 0. split; [now right|]. exists (dicts s g), 0.
+    split; [apply touched_refl, (I_sorted _ _ I)|now left]. }
+  assert (Hent : forall c a x, exists k, (Some (key_of cf a) = Some k \/ dicts (fst (enter cf s c a x)) g = dicts s g) /\
+                                     touch_or_evict k (clk s) (dicts s g) (dicts (fst (enter cf s c a x)) g)).
+  { intros c a x. exists (key_of cf a). split; [now left|].
+    assert (Hrefl : forall d', d' = dicts s g -> touch_or_evict (key_of cf a) (clk s) (dicts s g) d').
+    { intros d' ->. exists (dicts s g), 0. split; [apply touched_refl, (I_sorted _ _ I)|now left]. }
+    destruct (enter_pre cf s c a x IJ) as [[H _]|[(_ & H & _)|[H|H]]]; cbv zeta in *.
+    - apply Hrefl. now rewrite H.
+    - apply Hrefl. now rewrite H.
+    - destruct H as (y & v0 & exp & _ & _ & _ & _ & _ & Hd & _). rewrite Hd.
+      destruct (Nat.eq_dec g (cur s)) as [->|N]; [rewrite upd_same|apply Hrefl; now rewrite upd_other].
+      exists (dmove (key_of cf a) (clk s) (dict s)), 0. split; [|now left].
+      apply touched_dmove; [apply (I_sorted _ _ I)|apply (I_stamp _ _ I)|lia].
+    - destruct H as (sp & l & _ & _ & [Isp _] & E & _ & Hc & Hoth & HT & Hck & _). rewrite E.
+      destruct (Nat.eq_dec g (cur s)) as [->|N].
+      + destruct x.
+        * pose proof (acquire_x_facts cf sp c (key_of cf a) l) as F. cbv zeta in F. destruct F as (_ & _ & Hd & _).
+          rewrite Hd. exists (dicts sp (cur s)), 0. unfold dict in HT. rewrite Hc in HT. auto.
+        * pose proof (acquire_facts cf sp c (key_of cf a) l) as F. cbv zeta in F. destruct F as (_ & _ & _ & Hd & _).
+          rewrite Hc in Hd. unfold dict in HT. rewrite Hc in HT.
+          apply (after_uses cf sp (cur s) (key_of cf a) (clk s) _ _ Isp HT Hck Hd).
+      + apply Hrefl. destruct x.
+        * pose proof (acquire_x_facts cf sp c (key_of cf a) l) as F. cbv zeta in F. destruct F as (_ & _ & Hd & _).
+          rewrite Hd. now apply Hoth.
+        * pose proof (acquire_facts cf sp c (key_of cf a) l) as F. cbv zeta in F. destruct F as (_ & _ & Hd & _).
+          rewrite Hd by (rewrite Hc; exact N). now apply Hoth. }
+  destruct o as [c a|c a|c v0|c e|c|c| | |]; try contradiction; unfold step.
+  - apply Hent.
+  - apply Hent.
+  - apply Hsame. destruct (phase s c) as [|k|k l t0 g0|k l [w|] [|] g0|k v1 b|k [w|] [|]]; reflexivity.
+  - apply Hsame. destruct (phase s c) as [|k|k l t0 g0|k l [w|] [|] g0|k v1 b|k [w|] [|]]; reflexivity.
+  - apply Hsame. destruct (phase s c) as [|k|k l t0 g0|k l w b g0|k v1 b|k w b]; try reflexivity.
+    rewrite lock_do_eq. reflexivity.
+  - (* Resume *)
+    destruct (phase s c) as [|k|k l t0 g0|k l w b g0|k v1 b|k w b] eqn:Hp; try (now apply Hsame).
+    + rewrite lock_do_eq.
+      destruct (snd (Lock.step (locks s l) (Lock.Resume c))) eqn:Er; cbn [fst]; sm; try (now apply Hsame).
+      exists k. split; [left; cbn [call_key]; now rewrite Hp|].
+      set (s1 := set_lock s l _).
+      assert (I1 : Inv1 cf s1).
+      { destruct (Lock.phase_of (locks s l) c) eqn:Hlp.
+        - exfalso. assert (E' : Lock.step (locks s l) (Lock.Resume c) = (locks s l, Lock.RRejected))
+            by (cbn [Lock.step]; now rewrite Hlp). rewrite E' in Er. discriminate.
+        - destruct (resume_cases (locks s l) c (L_inv _ _ _ _ _ (I_lp _ _ I) l) ltac:(congruence))
+            as [[E1 Hh]|[[E1 _]|[E1 _]]]; rewrite Er in E1; try discriminate.
+          apply (inv1_lock_only cf s c k l t0 g0 (Lock.Resume c) I Hp eq_refl). right. exact Hh.
+        - destruct (resume_cases (locks s l) c (L_inv _ _ _ _ _ (I_lp _ _ I) l) ltac:(congruence))
+            as [[E1 Hh]|[[E1 _]|[E1 _]]]; rewrite Er in E1; try discriminate.
+          apply (inv1_lock_only cf s c k l t0 g0 (Lock.Resume c) I Hp eq_refl). right. exact Hh. }
+      pose proof (body_facts cf s1 c k l g0) as F. cbv zeta in F. destruct F as (_ & _ & Hoth & Hd & _).
+      destruct (Nat.eq_dec g g0) as [->|N].
+      * apply (after_uses cf s1 g0 k (clk s) (dicts s g0) _ I1); [apply touched_refl, (I_sorted _ _ I)|unfold s1; sm; lia|exact Hd].
+      * rewrite (Hoth _ N). exists (dicts s g), 0. split; [apply touched_refl, (I_sorted _ _ I)|now left].
+    + cbv zeta. destruct b.
+      * apply Hsame. rewrite release_eq. reflexivity.
+      * destruct w as [[v2|e]|]; [| |now apply Hsame].
+        -- exists k. split; [left; cbn [call_key]; now rewrite Hp|]. rewrite release_eq. cbn [finish fst]. sm.
+           destruct (Nat.eq_dec g g0) as [->|N]; [rewrite upd_same|rewrite upd_other by assumption].
+           ++ exists (dstore k (EVal v2 (new_exp cf (now s))) (clk s) (dicts s g0)), 0. split; [|now left].
+              apply touched_dstore; [apply (I_sorted _ _ I)|apply (I_stamp _ _ I g0)|lia].
+           ++ exists (dicts s g), 0. split; [apply touched_refl, (I_sorted _ _ I)|now left].
+        -- apply Hsame. rewrite release_eq. reflexivity.
+    + apply Hsame. destruct b; [reflexivity|]. destruct w as [[v2|e]|]; reflexivity.
+  - apply Hsame. reflexivity.
+Qed.
+
+(* LRU eviction at full strength (ttl included): an entry whose key disappears from a dict in a step other than
+   cache_clear() / a new loop was last used (installed, hit, reused after a wait, or recomputed after expiry)
+   strictly before every entry that remains *)
+Theorem lru_evicts_oldest_use cf ops o g x :
+  o <> Clear -> o <> NewLoop -> In x (dicts (run cf ops) g) ->
+  (forall y, In y (dicts (fst (step cf (run cf ops) o)) g) -> sk y <> sk x) ->
+  forall y', In y' (dicts (fst (step cf (run cf ops) o)) g) -> ss x < ss y'.
+Proof.
+  intros Hn1 Hn2 Hx Hgone.
+  destruct (step_uses cf (run cf ops) o g (reachable_inv cf ops) Hn1 Hn2) as (k & _ & d1 & k0 & HT & Hd).
+  eapply touched_evict; eauto.
+Qed.
+
+(* stamps change only by a use: after a step every entry either carries the stamp it had, or belongs to the key
+   of the call that acted in this step and carries a stamp newer than everything before *)
+Theorem lru_stamp_is_last_use cf ops o g y' :
+  o <> Clear -> o <> NewLoop -> In y' (dicts (fst (step cf (run cf ops) o)) g) ->
+  (exists y, In y (dicts (run cf ops) g) /\ sk y = sk y' /\ ss y = ss y') \/
+  (call_key cf (run cf ops) o = Some (sk y') /\ clk (run cf ops) <= ss y').
+Proof.
+  intros Hn1 Hn2 Hy.
+  destruct (step_uses cf (run cf ops) o g (reachable_inv cf ops) Hn1 Hn2) as (k & Hk & d1 & k0 & (_ & _ & HB) & Hd).
+  destruct Hk as [Hk|Hk]; [|left; exists y'; rewrite <- Hk; auto].
+  assert (Hin : exists y1, In y1 d1 /\ sk y1 = sk y' /\ ss y1 = ss y').
+  { destruct Hd as [E|[E|E]]; rewrite E in Hy.
+    - exists y'. auto.
+    - apply in_dmark_stamp in Hy. exact Hy.
+    - apply in_dmark_stamp in Hy. destruct Hy as (y1 & H1 & H2). exists y1. split; [|exact H2].
+      destruct d1; [contradiction|now right]. }
+  destruct Hin as (y1 & Hy1 & Ek & Es). destruct (HB y1 Hy1) as [(y0 & H0 & E1 & E2)|[E L]].
+  - left. exists y0. split; [exact H0|]. split; congruence.
+  - right. split; [congruence|lia].
+Qed.
+
+(* ... and every use does refresh the stamp: after a call that installs, hits or recomputes after expiry, and
+   after a waiter's reuse of a flight's result, the key (while it is in the dict) carries a stamp >= the clock,
+   i.e. newer than every stamp of the state before (lru_order) *)
+Theorem lru_use_refreshes cf ops o k g :
+  ((exists c a, (o = Call c a \/ o = CallX c a) /\ key_of cf a = k /\ g = cur (run cf ops) /\
+      snd (step cf (run cf ops) o) <> RRejected /\
+      is_zero_max cf = false /\ (forall l b, dget k (dict (run cf ops)) <> Some (EPlace l b))) \/
+   (exists c l t0 v, o = Resume c /\ phase (run cf ops) c = CLockWait k l t0 g /\
+      snd (step cf (run cf ops) o) = RRet v)) ->
+  forall y, In y (dicts (fst (step cf (run cf ops) o)) g) -> sk y = k -> clk (run cf ops) <= ss y.
+Proof.
+  pose proof (reachable_inv cf ops) as IJ. pose proof IJ as [I J]. set (s := run cf ops) in *.
+  intros [(c & a & Ho & Hk & Hg & Hacc & Hz & Hnp)|(c & l & t0 & v & -> & Hp & Hr)].
+  - assert (Hx : exists x, step cf s o = enter cf s c a x) by (destruct Ho as [-> | ->]; [exists false|exists true]; reflexivity).
+    destruct Hx as [x Ex]. rewrite Ex in *. subst g k.
+    destruct (enter_pre cf s c a x IJ) as [[_ H]|[(H & _)|[H|H]]]; cbv zeta in *; try congruence.
+    + destruct H as (y0 & v0 & exp & _ & _ & _ & _ & _ & Hd & _). rewrite Hd, upd_same. apply fresh_dmove. lia.
+    + destruct H as (sp & l & _ & _ & [Isp _] & E & _ & Hc & _ & _ & Hck & _ & _ & _ & Hfr). rewrite E.
+      specialize (Hfr Hnp). unfold dict in Hfr. rewrite Hc in Hfr. destruct x.
+      * pose proof (acquire_x_facts cf sp c (key_of cf a) l) as F. cbv zeta in F. destruct F as (_ & _ & Hd & _).
+        rewrite Hd. exact Hfr.
+      * pose proof (acquire_facts cf sp c (key_of cf a) l) as F. cbv zeta in F. destruct F as (_ & _ & _ & Hd & _).
+        rewrite Hc in Hd. destruct Hd as [Hd|[Hd|[Hd|Hd]]]; rewrite Hd.
+        -- exact Hfr.
+        -- intros y Hy Hky. apply in_dmark_stamp in Hy. destruct Hy as (y1 & H1 & H2 & H3). rewrite <- H3. apply Hfr; congruence.
+        -- intros y Hy Hky. apply in_dmark_stamp in Hy. destruct Hy as (y1 & H1 & H2 & H3). rewrite <- H3.
+           apply Hfr; [|congruence]. destruct (dicts sp (cur s)); [contradiction|now right].
+        -- apply fresh_dmove. lia.
+  - revert Hr. unfold step. rewrite Hp, lock_do_eq.
+    destruct (snd (Lock.step _ _)); cbn [fst snd]; try discriminate.
+    match goal with |- context [body cf ?s1 c k l g] => pose proof (body_facts cf s1 c k l g) as F end.
+    cbv zeta in F. destruct F as (_ & _ & _ & _ & F & _). intros Hr. rewrite Hr in F.
+    destruct F as [F|[[F _]|[[F _]|(x & v2 & e2 & _ & _ & _ & _ & Hd)]]]; try discriminate.
+    rewrite Hd. sm. apply fresh_dmove. lia.
+Qed.
+
+(* ------------------------------------------------------------------------------------------------ *)
+(* 7. an expired entry is recomputed, not served                                                      *)
 (* ------------------------------------------------------------------------------------------------ *)
 (* lookup path: a call that is answered from the cache at once (returned, or in the hit checkpoint) found an
    entry that had not expired *)
-Theorem lru_expired_recomputed cf s c a v :
-  snd (step cf s (Call c a)) <> RRejected ->
-  (snd (step cf s (Call c a)) = RRet v \/
-   exists b, phase (fst (step cf s (Call c a))) c = CHitCk (key_of cf a) v b) ->
-  exists x exp, dfind (key_of cf a) (dict s) = Some x /\ se x = EVal v exp /\ expired exp (now s) = false.
+Theorem lru_expired_recomputed cf ops c a x v :
+  let s := run cf ops in
+  snd (enter cf s c a x) <> RRejected ->
+  (snd (enter cf s c a x) = RRet v \/
+   exists b, phase (fst (enter cf s c a x)) c = CHitCk (key_of cf a) v b) ->
+  exists y exp, dfind (key_of cf a) (dict s) = Some y /\ se y = EVal v exp /\ expired exp (now s) = false.
 Proof.
-  unfold step.
-  destruct (Nat.ltb c (ncall cf)); cbn [negb]; [|cbn; congruence].
-  destruct (phase s c) eqn:Hp; cbn [is_cidle negb]; try (cbn; congruence).
-  set (k := key_of cf a).
-  destruct (is_zero_max cf).
-  { cbn [fst snd]. intros _ [H|[b H]]; [discriminate|]. sm. rewrite upd_same in H. discriminate. }
-  assert (Hacq : forall s0 l, phase s0 c = CIdle ->
-            (exists x l', dfind k (dict s0) = Some x /\ se x = EPlace l') ->
-            ~ (snd (acquire cf s0 c k l) = RRet v \/ exists b, phase (fst (acquire cf s0 c k l)) c = CHitCk k v b)).
-  { intros s0 l Hp0 (x & l' & Hx & Hse) [H|[b H]].
-    - destruct (acquire_shape cf s0 c k l) as [_ H2]. cbv zeta in H2. rewrite H in H2.
-      destruct H2 as [H2|[H2|[[H2 _]|(y & v2 & e2 & H2 & H3 & H4)]]]; try discriminate. congruence.
-    - destruct (acquire_phase cf s0 c k l) as [H2|[H2|H2]]; congruence. }
-  destruct (dfind k (dict s)) as [x|] eqn:Hfind.
-  - destruct (se x) as [l|v1 exp] eqn:Hse.
-    + intros _ H. exfalso. apply (Hacq s l Hp); eauto.
-    + destruct (expired exp (now s)) eqn:Hexp.
-      * cbv zeta. intros _ H. exfalso. revert H. apply Hacq; [exact Hp|]. sm.
-        pose proof (dget_find _ _ _ Hfind) as Hg.
-        pose proof (dget_dmove k k (clk s) (dset_in k (EPlace (nlock s)) (dict s))) as Hg'.
-        rewrite dget_dset_in_same, Hg in Hg'.
-        destruct (dget_some _ _ _ Hg') as (y & Hy & Hy' & _). eauto.
-      * cbv zeta. intros _ H. exists x, exp. refine (conj eq_refl (conj _ Hexp)).
-        destruct (ackpt cf); cbn [fst snd] in H; sm.
-        -- destruct H as [H|[b H]]; [discriminate|]. rewrite upd_same in H. congruence.
-        -- destruct H as [H|[b H]]; [congruence|]. rewrite Hp in H. discriminate.
-  - cbv zeta. intros _ H. exfalso. revert H. apply Hacq; [exact Hp|]. sm.
-    pose proof (dget_app k (dict s) k (EPlace (nlock s)) (clk s)) as Hg.
-    rewrite (dget_none_find _ _ Hfind), Nat.eqb_refl in Hg.
-    destruct (dget_some _ _ _ Hg) as (y & Hy & Hy' & _). eauto.
+  cbv zeta. pose proof (reachable_inv cf ops) as IJ. set (s := run cf ops) in *. intros Hacc Hres.
+  destruct (enter_pre cf s c a x IJ) as [[_ H]|[(_ & _ & _ & _ & _ & H & H')|[H|H]]]; cbv zeta in *.
+  - congruence.
+  - exfalso. destruct Hres as [Hr|[b Hr]]; congruence.
+  - destruct H as (y & v0 & exp & _ & Hid & Hf & Hse & Hexp & _ & _ & _ & _ & Hr).
+    exists y, exp. refine (conj Hf (conj _ Hexp)).
+    destruct Hr as [[Hr Hph]|[Hr Hph]]; destruct Hres as [Hres|[b Hres]]; try congruence;
+      exfalso; rewrite Hph in Hres; congruence.
+  - exfalso. destruct H as (sp & l & _ & Hpc & _ & E & _ & _ & _ & _ & _ & _ & [b Hd] & _). rewrite E in Hres.
+    destruct Hres as [Hr|[b0 Hr]]; [eapply acq_no_ret; eauto|].
+    destruct x.
+    + pose proof (acquire_x_facts cf sp c (key_of cf a) l) as F. cbv zeta in F.
+      destruct F as (_ & _ & _ & _ & _ & [F|[F|F]]); congruence.
+    + pose proof (acquire_facts cf sp c (key_of cf a) l) as F. cbv zeta in F.
+      destruct F as (_ & _ & _ & _ & _ & [F|[F|F]] & _); congruence.
 Qed.
 
 (* re-read path (the caller waited for the entry's lock): the value it is served was stored after its call began,
    i.e. it expires no earlier than ttl after the call *)
-Theorem lru_reread_serves_fresh cf ops c k l t0 v :
-  phase (run cf ops) c = CLockWait k l t0 ->
+Theorem lru_reread_serves_fresh cf ops c k l t0 g v :
+  phase (run cf ops) c = CLockWait k l t0 g ->
   snd (step cf (run cf ops) (Resume c)) = RRet v ->
-  exists exp, dget k (dict (run cf ops)) = Some (EVal v exp) /\
+  exists exp, dget k (dicts (run cf ops) g) = Some (EVal v exp) /\
               forall e dl, exp = Some e -> ttl cf = Some dl -> t0 + dl <= e.
 Proof.
-  intros Hp. pose proof (reachable_inv cf ops) as I. set (s := run cf ops) in *.
+  intros Hp. pose proof (reachable_inv1 cf ops) as I. set (s := run cf ops) in *.
   unfold step. rewrite Hp, lock_do_eq.
   destruct (snd (Lock.step _ _)); cbn [fst snd]; try discriminate.
-  match goal with |- context [body cf ?s1 c k l] => destruct (body_shape cf s1 c k l) as [_ H] end.
-  cbv zeta in H. sm. intros E. rewrite E in H.
+  match goal with |- context [body cf ?s1 c k l g] => pose proof (body_facts cf s1 c k l g) as F end.
+  cbv zeta in F. sm. destruct F as (_ & _ & _ & _ & H & _). intros E. rewrite E in H.
   destruct H as [H|[[H _]|[[H _]|(y & v2 & e2 & H & H1 & H2 & _)]]]; try discriminate.
   injection H as <-. exists e2. split; [rewrite (dget_find _ _ _ H1), H2; reflexivity|].
-  intros e dl -> Ht. apply (I_fresh _ _ I c k l t0 v e dl Hp); [|exact Ht].
+  intros e dl -> Ht. apply (I_fresh _ _ I c k l t0 g v e dl Hp); [|exact Ht].
   rewrite (dget_find _ _ _ H1), H2. reflexivity.
 Qed.
-
-(* ------------------------------------------------------------------------------------------------ *)
-(* Refutations: without the hypotheses the clauses fail (findings F3 and F8), by concrete histories   *)
-(* ------------------------------------------------------------------------------------------------ *)
-Definition cfg_m1 := mkcfg (Some 1) None false false 3.       (* maxsize = 1, three callers *)
-Definition cfg_m2 := mkcfg (Some 2) None false false 3.
-Definition cfg_ttl0 := mkcfg None (Some 0) false false 3.     (* unbounded, ttl = 0 *)
-Definition cfg_m1_ck := mkcfg (Some 1) None true false 3.     (* maxsize = 1, always_checkpoint *)
-
-(* F3(a): caller 2's miss on key 1 evicts the in-flight placeholder of key 0, the computation of key 0 fails,
-   the waiter re-reads the entry: KeyError *)
-Definition w_f3_keyerror := [Call 0 0; Call 1 0; Call 2 2; WrappedRaises 0 0; Resume 0].
-Theorem lru_refuted_keyerror :
-  exists cf ops o, evicts_inflight cf (ops ++ [o]) = true /\ snd (step cf (run cf ops) o) = RKeyError.
-Proof. exists cfg_m1, w_f3_keyerror, (Resume 1). vm_compute. auto. Qed.
-
-(* F3(b): the evicted in-flight computation and the evicting one both complete: two results with maxsize = 1 *)
-Definition w_f3_exceeds :=
-  [Call 0 0; Call 2 2; WrappedReturns 0 1; Resume 0; WrappedReturns 2 2; Resume 2].
-Theorem lru_refuted_exceeds :
-  exists cf ops m, maxsize cf = Some m /\
-    m < length (filter (fun x => negb (is_place (se x))) (dict (run cf ops))).
-Proof. exists cfg_m1, w_f3_exceeds, 1. vm_compute. auto. Qed.
-
-(* F3(c): a failed computation leaks currsize; the next caller evicts its own placeholder and a third caller
-   installs a new one: two executions for key 0 at the same time *)
-Definition w_f3_double_flight := [Call 0 0; WrappedRaises 0 0; Resume 0; Call 1 0; Call 2 0].
-Theorem lru_refuted_double_flight :
-  exists cf ops c1 c2 k l1 l2, c1 <> c2 /\
-    phase (run cf ops) c1 = CInWrapped k l1 None false /\ phase (run cf ops) c2 = CInWrapped k l2 None false.
-Proof. exists cfg_m1, w_f3_double_flight, 1, 2, 0, 0, 1. vm_compute. repeat split. discriminate. Qed.
-
-(* F3(d): a caller cancelled before its computation started leaves a placeholder that was never counted; a
-   later miss evicts that (idle) placeholder instead of a value: two results with maxsize = 1 *)
-Definition w_f3_exceeds_leftover :=
-  [Call 0 0; CancelCaller 0; Resume 0; Call 1 2; Resume 1; WrappedReturns 1 1; Resume 1;
-   Call 2 4; Resume 2; WrappedReturns 2 2; Resume 2].
-Theorem lru_refuted_exceeds_leftover :
-  exists cf ops m, maxsize cf = Some m /\
-    m < length (filter (fun x => negb (is_place (se x))) (dict (run cf ops))).
-Proof. exists cfg_m1_ck, w_f3_exceeds_leftover, 1. vm_compute. auto. Qed.
-
-(* F8(a): no placeholder is ever evicted, but the completed value of key 0 is evicted while waiter 1 has been
-   handed the entry's lock: KeyError *)
-Definition w_f8_keyerror := [Call 0 0; Call 1 0; WrappedReturns 0 7; Resume 0; Call 2 2].
-Theorem lru_refuted_keyerror_waited :
-  exists cf ops o, evicts_inflight cf (ops ++ [o]) = false /\ evicts_waited cf (ops ++ [o]) = true /\
-    snd (step cf (run cf ops) o) = RKeyError.
-Proof. exists cfg_m1, w_f8_keyerror, (Resume 1). vm_compute. auto. Qed.
-
-(* F8(b): ... and caller 0 installs a new placeholder (new lock) before the waiter runs: two executions *)
-Definition w_f8_double_flight :=
-  [Call 0 0; Call 1 0; WrappedReturns 0 1; Resume 0; Call 2 2; WrappedReturns 2 2; Resume 2;
-   Call 2 4; WrappedReturns 2 3; Resume 2; Call 0 0; Resume 1].
-Theorem lru_refuted_double_flight_waited :
-  exists cf ops c1 c2 k l1 l2, evicts_inflight cf ops = false /\ evicts_waited cf ops = true /\ c1 <> c2 /\
-    phase (run cf ops) c1 = CInWrapped k l1 None false /\ phase (run cf ops) c2 = CInWrapped k l2 None false.
-Proof. exists cfg_m2, w_f8_double_flight, 0, 1, 0, 3, 0. vm_compute. repeat split. discriminate. Qed.
-
-(* F8(c): the value expires between the hand-off and the waiter's resumption; a third caller replaces it by a
-   placeholder with a new lock: two executions *)
-Definition w_f8_ttl := [Call 0 0; Call 1 0; WrappedReturns 0 1; Resume 0; Call 2 0; Resume 1].
-Theorem lru_refuted_double_flight_ttl :
-  exists cf ops c1 c2 k l1 l2, maxsize cf = None /\ dict (run cf ops) <> [] /\
-    evicts_inflight cf ops = false /\ evicts_waited cf ops = true /\ c1 <> c2 /\
-    phase (run cf ops) c1 = CInWrapped k l1 None false /\ phase (run cf ops) c2 = CInWrapped k l2 None false.
-Proof. exists cfg_ttl0, w_f8_ttl, 2, 1, 0, 1, 0. vm_compute. repeat split; discriminate. Qed.
-
-(* ------------------------------------------------------------------------------------------------ *)
-(* Non-vacuity: concrete reachable histories that satisfy the hypotheses of the positive theorems      *)
-(* ------------------------------------------------------------------------------------------------ *)
-(* contention on key 0 (caller 1 waits for caller 0's flight and reuses its result), a second key in flight,
-   then a third key whose miss evicts the completed, least recently used entry of key 1 *)
-Definition ex_ops :=
-  [Call 0 0; Call 1 0; Call 2 2; WrappedReturns 0 5; Resume 0; Resume 1; WrappedReturns 2 6; Resume 2;
-   Call 0 4; WrappedReturns 0 7; Resume 0].
-
-Example ex_hypotheses_hold :
-  no_inflight_eviction cfg_m2 ex_ops /\ no_waited_eviction cfg_m2 ex_ops /\
-  (forall n, n <= length ex_ops -> evicts_inflight cfg_m2 (firstn n ex_ops) = false).
-Proof.
-  refine (conj eq_refl (conj eq_refl _)). intros n Hn.
-  do 12 (destruct n as [|n]; [reflexivity|]). cbn in Hn. lia.
-Qed.
-
-Example ex_contended_state :
-  let s := run cfg_m2 (firstn 3 ex_ops) in
-  phase s 0 = CInWrapped 0 0 None false /\ phase s 1 = CLockWait 0 0 0 /\ phase s 2 = CInWrapped 1 1 None false /\
-  Lock.owner (locks s 0) = Some 0 /\ length (Lock.waiters (locks s 0)) = 1.
-Proof. vm_compute. auto 6. Qed.
-
-Example ex_outputs :
-  map (fun n => snd (step cfg_m2 (run cfg_m2 (firstn n ex_ops)) (nth n ex_ops Tick))) (seq 0 11) =
-  [RBlocked; RBlocked; RBlocked; RNone; RRet 5; RRet 5; RNone; RRet 6; RBlocked; RNone; RRet 7].
-Proof. vm_compute. reflexivity. Qed.
-
-Example ex_reuse_hyp :
-  let s := run cfg_m2 (firstn 5 ex_ops) in
-  phase s 1 = CLockWait 0 0 0 /\ dget 0 (dict s) = Some (EVal 5 None) /\ snd (step cfg_m2 s (Resume 1)) = RRet 5.
-Proof. vm_compute. auto. Qed.
-
-Example ex_evicts_completed_lru :
-  let s := run cfg_m2 (firstn 8 ex_ops) in
-  map sk (dict s) = [1; 0] /\ map sk (dict (fst (step cfg_m2 s (Call 0 4)))) = [0; 2] /\
-  currsize (run cfg_m2 ex_ops) = 2%Z /\ hits (run cfg_m2 ex_ops) = 1 /\ misses (run cfg_m2 ex_ops) = 3 /\
-  map se (dict (run cfg_m2 ex_ops)) = [EVal 5 None; EVal 7 None].
-Proof. vm_compute. auto 7. Qed.
-
-(* ttl = 2: a hit before the expiry, recomputation after it *)
-Definition cfg_ttl2 := mkcfg None (Some 2) false false 2.
-Definition ex_ttl_ops :=
-  [Call 0 0; WrappedReturns 0 5; Resume 0; Call 1 0; Tick; Tick; Call 1 0; WrappedReturns 1 6; Resume 1].
-
-Example ex_ttl :
-  map (fun n => snd (step cfg_ttl2 (run cfg_ttl2 (firstn n ex_ttl_ops)) (nth n ex_ttl_ops Tick))) (seq 0 9) =
-  [RBlocked; RNone; RRet 5; RRet 5; RNone; RNone; RBlocked; RNone; RRet 6] /\
-  no_inflight_eviction cfg_ttl2 ex_ttl_ops /\ no_waited_eviction cfg_ttl2 ex_ttl_ops /\
-  map se (dict (run cfg_ttl2 ex_ttl_ops)) = [EVal 6 (Some 4)].
-Proof. vm_compute. auto. Qed.
-
-(* always_checkpoint: the hit suspends in the checkpoint *)
-Definition cfg_ck := mkcfg (Some 2) None true false 2.
-Example ex_hit_checkpoint :
-  let s := run cfg_ck [Call 0 0; Resume 0; WrappedReturns 0 5; Resume 0] in
-  snd (step cfg_ck s (Call 1 0)) = RBlocked /\ phase (fst (step cfg_ck s (Call 1 0))) 1 = CHitCk 0 5 false.
-Proof. vm_compute. auto. Qed.
-
-(* the wrapped function raises: the exception reaches exactly the caller that executed it *)
-Example ex_raises :
-  let s := run cfg_m2 [Call 0 0; Call 1 0; WrappedRaises 0 1] in
-  snd (step cfg_m2 s (Resume 0)) = RExc 1 /\
-  snd (step cfg_m2 (fst (step cfg_m2 s (Resume 0))) (Resume 1)) = RBlocked.
-Proof. vm_compute. auto. Qed.
-
-(* a waiter with a ttl: it called at t0 = 0, the value is stored at time 1 and expires at 3 >= t0 + ttl *)
-Example ex_reread_ttl :
-  let s := run cfg_ttl2 [Call 0 0; Call 1 0; Tick; WrappedReturns 0 5; Resume 0] in
-  phase s 1 = CLockWait 0 0 0 /\ snd (step cfg_ttl2 s (Resume 1)) = RRet 5 /\
-  dget 0 (dict s) = Some (EVal 5 (Some 3)).
-Proof. vm_compute. auto. Qed.
-
-(* ------------------------------------------------------------------------------------------------ *)
-(* F15 (fixed in /repo by 21d8dda): the behaviour before the fix, as a variant of `step`.  The expired entry is
-   replaced IN PLACE (position kept) although the recomputation is a use (the ghost stamp is refreshed all the
-   same); everything else is `step`.                                                                   *)
-(* ------------------------------------------------------------------------------------------------ *)
-Fixpoint dset_in_stamp (k : key) (e : entry) (st : nat) (d : list slot) : list slot :=
-  match d with
-  | [] => []
-  | x :: r => if Nat.eqb (sk x) k then mkslot k e st :: r else x :: dset_in_stamp k e st r
-  end.
-
-Definition old_expiry_step (cf : cfg) (s : st) (o : op) : st * res :=
-  match o with
-  | Call c a =>
-      let k := key_of cf a in
-      if andb (andb (Nat.ltb c (ncall cf)) (is_cidle (phase s c))) (negb (is_zero_max cf)) then
-        match dfind k (dict s) with
-        | Some x =>
-            match se x with
-            | EVal v exp =>
-                if expired exp (now s) then
-                  let l := nlock s in
-                  let s1 := set_flags s (f_inflight s) (orb (f_waited s) (waited cf s k)) in
-                  let s2 := set_counts s1 (hits s1) (misses s1) (currsize s1 - 1)%Z in
-                  let s3 := new_lock cf s2 k in
-                  let s4 := bump_clk (set_dict s3 (dset_in_stamp k (EPlace l) (clk s3) (dict s3))) in
-                  acquire cf s4 c k l
-                else step cf s o
-            | EPlace _ => step cf s o
-            end
-        | None => step cf s o
-        end
-      else step cf s o
-  | _ => step cf s o
-  end.
-
-Definition run_old (cf : cfg) (ops : list op) : st := final (old_expiry_step cf) init ops.
-
-(* maxsize = 2, ttl = 2: key 1 at time 0, key 2 at time 1, key 1 again at time 2 (expired: recomputed), then key 3 *)
-Definition cfg_f15 := mkcfg (Some 2) (Some 2) false false 1.
-Definition w_f15 :=
-  [Call 0 2; WrappedReturns 0 1; Resume 0; Tick; Call 0 4; WrappedReturns 0 2; Resume 0; Tick;
-   Call 0 2; WrappedReturns 0 3; Resume 0].
-
-(* under the OLD behaviour the statement of lru_evicts_oldest_use fails: the miss on key 3 evicts key 1, which was
-   recomputed (used) after key 2 -- no placeholder and no waited entry is evicted anywhere in this history *)
-Theorem lru_refuted_old_expiry_order :
-  exists cf ops o x y',
-    f_inflight (run_old cf (ops ++ [o])) = false /\ f_waited (run_old cf (ops ++ [o])) = false /\
-    o <> Clear /\ In x (dict (run_old cf ops)) /\
-    (forall y, In y (dict (fst (old_expiry_step cf (run_old cf ops) o))) -> sk y <> sk x) /\
-    In y' (dict (fst (old_expiry_step cf (run_old cf ops) o))) /\ ss y' < ss x.
-Proof.
-  exists cfg_f15, w_f15, (Call 0 6), (mkslot 1 (EVal 3 (Some 4)) 4), (mkslot 2 (EVal 2 (Some 3)) 2).
-  vm_compute. refine (conj eq_refl (conj eq_refl (conj _ (conj _ (conj _ (conj _ _)))))).
-  - discriminate.
-  - now left.
-  - intros y [<-|[<-|[]]]; discriminate.
-  - now left.
-  - lia.
-Qed.
-
-(* the same history on the model of the fixed code: the expired key is moved to the recent end when it is
-   recomputed, and the miss on key 3 evicts key 2 *)
-Example ex_f15_fixed :
-  no_inflight_eviction cfg_f15 (w_f15 ++ [Call 0 6]) /\ no_waited_eviction cfg_f15 (w_f15 ++ [Call 0 6]) /\
-  map sk (dict (run cfg_f15 (firstn 8 w_f15))) = [1; 2] /\
-  map sk (dict (run cfg_f15 (firstn 9 w_f15))) = [2; 1] /\
-  map (fun x => (sk x, ss x)) (dict (run cfg_f15 w_f15)) = [(2, 2); (1, 4)] /\
-  map sk (dict (run cfg_f15 (w_f15 ++ [Call 0 6]))) = [1; 3].
-Proof. vm_compute. auto 7. Qed.
